@@ -3,7 +3,7 @@ CompileFull — the full forward simulation for the MiniGo core: expressions wit
 break/continue and call statements, loop iterations, CALL…RET, proved together by induction on the fuel of the
 big-step semantics (`allOK`).
 -/
-import NeoModel.Proofs.CompileStmt
+import NeoModel.Proofs.CompileVarDecl
 namespace NeoModel.CompileProofs
 open NeoModel.MiniVm NeoModel.MiniVm.Asm NeoModel.MiniGo NeoModel.Compile
 
@@ -55,8 +55,7 @@ theorem step_ret {C : Code} {s : State} {f : MiniVm.Frame} {fs : List MiniVm.Fra
     Asm.step C s = .running { pc := f.retPc, stack := s.stack, locals := f.locals, args := f.args, frames := fs, inited := f.inited } := by
   simp [Asm.step, hf, stepOp, hfr]
 
-/-- statements covered by the full statement theorem.  `il` = inside a loop body (break/continue allowed).
-    Excluded: `var x T = e` (see `varDecl_shadow_witness`), a declaring post statement (not Go). -/
+/-- a post statement: declares nothing (Go allows only simple statements; `i := …` as post statement is not Go). -/
 def NoDecl : Stmt → Prop
   | .skip | .assign _ _ | .inc _ | .dec _ => True
   | .opAssign _ op _ => Strict op
@@ -66,20 +65,86 @@ def IsCall : Expr → Prop
   | .call0 _ | .call1 _ _ | .call2 _ _ _ | .call3 _ _ _ _ => True
   | _ => False
 
-def Allowed (il : Bool) : Stmt → Prop
+/-- what `Allowed` knows about the enclosing `for` / `switch` statements, innermost first: (Go label, is a `for`). -/
+abbrev Sigs := List (Option String × Bool)
+
+def sigOf (lp : LoopCtx) : Sigs := lp.map (fun e => (e.name, e.isFor))
+
+/-- number of enclosing `switch` statements (each keeps its tag on the VM stack). -/
+def swCount : Sigs → Nat
+  | [] => 0
+  | (_, isFor) :: r => (if isFor then 0 else 1) + swCount r
+
+/-- the innermost enclosing statement labeled `x` is a `for`. -/
+def contTarget (x : String) : Sigs → Bool
+  | [] => false
+  | (n, isFor) :: r => if n == some x then isFor else contTarget x r
+
+def IsClause : Stmt → Prop
+  | .caseS _ _ _ _ _ | .defaultS _ => True
+  | _ => False
+
+/-- a clause chain: clauses, then `default` or nothing. -/
+def IsChain : Stmt → Prop
+  | .skip | .defaultS _ => True
+  | .caseS _ _ _ _ rest => IsChain rest
+  | _ => False
+
+mutual
+/-- statements covered by the full statement theorems; `ls` describes the enclosing `for` / `switch` statements.
+    `var x T = e` is allowed exactly when `x` does not occur in `e` (otherwise the compiled code reads the freshly
+    allocated slot, see `varDecl_shadow_witness`).  `break`/`continue` need something to leave, `break L`/`continue L`
+    an enclosing statement labeled `L` (for `continue`: a `for`); a label may only be put on a `for` or a `switch`
+    (the only labels Go lets `break`/`continue` refer to); a `switch` may be nested in at most two others (a fourth
+    stack item would be dropped with PACK, which MiniVm does not execute); `default` comes last (the clause chain
+    ends with it or with `skip`: a `default` in another position is the known finding switch-early-default);
+    `fallthrough` in the last clause is not Go (and crashes the compiler).  Excluded: a declaring post statement. -/
+def Allowed (ls : Sigs) : Stmt → Prop
   | .skip | .inc _ | .dec _ | .define _ _ | .assign _ _ | .discard _ | .panicS _ | .ret _ => True
-  | .seq a b => Allowed il a ∧ Allowed il b
+  | .seq a b => Allowed ls a ∧ Allowed ls b
   | .opAssign _ op _ => Strict op
   | .varDecl _ _ none => True
-  | .varDecl _ _ (some _) => False
+  | .varDecl x _ (some e) => mentions x e = false
   | .exprStmt e => IsCall e
-  | .ite _ t _ e => Allowed il t ∧ Allowed il e
-  | .loop i _ p b => Allowed false i ∧ NoDecl p ∧ Allowed true b
-  | .brk | .cont => il = true
-  | .block b => Allowed il b
+  | .ite _ t _ e => Allowed ls t ∧ Allowed ls e
+  | .loop i _ p b => Allowed ls i ∧ NoDecl p ∧ Allowed ((none, true) :: ls) b
+  | .brk => ls ≠ []
+  | .cont => ∃ p ∈ ls, p.2 = true
+  | .block b => Allowed ls b
+  | .labeled x (.loop i _ p b) => Allowed ls i ∧ NoDecl p ∧ Allowed ((some x, true) :: ls) b
+  | .labeled x (.switchS _ _ cl) => swCount ls < 3 ∧ AllowedCl ((some x, false) :: ls) cl
+  | .labeled _ _ => False
+  | .brkL x => ∃ p ∈ ls, p.1 = some x
+  | .contL x => contTarget x ls = true
+  | .switchS _ _ cl => swCount ls < 3 ∧ AllowedCl ((none, false) :: ls) cl
+  | .caseS _ _ _ _ _ => False          -- clauses are statements of a clause chain only
+  | .defaultS _ => False
+/-- the clause chain of a `switch`: `case` clauses, then `default` or nothing. -/
+def AllowedCl (ls : Sigs) : Stmt → Prop
+  | .skip => True
+  | .defaultS b => Allowed ls b
+  | .caseS _ _ b ft rest => Allowed ls b ∧ AllowedCl ls rest ∧ (ft = true → IsClause rest)
+  | _ => False
+end
 
-theorem noDecl_allowed {p : Stmt} (h : NoDecl p) (il : Bool) : Allowed il p := by
+theorem allowedCl_chain : ∀ (cl : Stmt) (ls : Sigs), AllowedCl ls cl → IsChain cl
+  | .skip, _, _ => trivial
+  | .defaultS _, _, _ => trivial
+  | .caseS _ _ _ _ rest, ls, h => allowedCl_chain rest ls (by simp only [AllowedCl] at h; exact h.2.1)
+  | .seq _ _, _, h | .define _ _, _, h | .assign _ _, _, h | .opAssign _ _ _, _, h | .inc _, _, h | .dec _, _, h
+  | .varDecl _ _ _, _, h | .exprStmt _, _, h | .discard _, _, h | .panicS _, _, h | .ite _ _ _ _, _, h
+  | .loop _ _ _ _, _, h | .ret _, _, h | .brk, _, h | .cont, _, h | .block _, _, h | .labeled _ _, _, h
+  | .brkL _, _, h | .contL _, _, h | .switchS _ _ _, _, h => by simp [AllowedCl] at h
+
+theorem noDecl_allowed {p : Stmt} (h : NoDecl p) (ls : Sigs) : Allowed ls p := by
   cases p <;> simp [NoDecl] at h <;> simp [Allowed] <;> exact h
+
+theorem totalSz_sig (lp : LoopCtx) : totalSz lp = swCount (sigOf lp) := by
+  induction lp with
+  | nil => rfl
+  | cons e r ih =>
+    simp only [totalSz, sigOf, List.map_cons, swCount, LEntry.sz]
+    rw [ih]; rfl
 
 end NeoModel.CompileProofs
 
@@ -503,24 +568,42 @@ theorem Same.refl (σ : State) : Same σ σ := ⟨rfl, rfl, rfl, rfl⟩
 theorem Same.trans {a b c : State} (h1 : Same a b) (h2 : Same b c) : Same a c :=
   ⟨h2.stack.trans h1.stack, h2.frames.trans h1.frames, h2.inited.trans h1.inited, h2.len.trans h1.len⟩
 
+/-- … except that the `k` topmost stack items (tags of the `switch` statements that are left) are gone. -/
+structure SameD (k : Nat) (σ σ' : State) : Prop where
+  stack : σ'.stack = σ.stack.drop k
+  frames : σ'.frames = σ.frames
+  inited : σ'.inited = σ.inited
+  len : σ'.locals.length = σ.locals.length
+
+theorem Same.toD {σ σ' : State} (h : Same σ σ') : SameD 0 σ σ' := ⟨by simpa using h.stack, h.frames, h.inited, h.len⟩
+theorem SameD.of_same {k : Nat} {a b c : State} (h1 : Same a b) (h2 : SameD k b c) : SameD k a c :=
+  ⟨by rw [h2.stack, h1.stack], h2.frames.trans h1.frames, h2.inited.trans h1.inited, h2.len.trans h1.len⟩
+theorem SameD.then_same {k : Nat} {a b c : State} (h1 : SameD k a b) (h2 : Same b c) : SameD k a c :=
+  ⟨by rw [h2.stack, h1.stack], h2.frames.trans h1.frames, h2.inited.trans h1.inited, h2.len.trans h1.len⟩
+
 /-- the environment without its `d` innermost frames. -/
 def dropEnv (env : Env) (d : Nat) : Env := { env with frames := env.frames.drop d }
 
 /-- what the code of a statement achieves.  `endpc`: where normal completion ends; `scN`: compile-time scopes after
-    the statement; `scA`, `d`: scopes before it and the number of scopes between it and the enclosing loop (a
-    `break`/`continue` leaves exactly those; what it guarantees is the relation for the frames below them). -/
-def StmtPostF (cx : Ctx) (C : Code) (σ : State) (endpc : Nat) (scN scA : Scopes) (lp : LoopCtx) (d : Nat) : SOut → Prop
+    the statement; `scA`: scopes before it; `lp`: the enclosing `for`/`switch` statements.  A `return` has dropped the
+    tags of all enclosing `switch` statements before it evaluates its result; a `break`/`continue` reaches the end /
+    post mark of the statement it refers to with the tags of the statements it leaves dropped, and the slots describe
+    the frames of that statement's scope depth (`scLen`). -/
+def StmtPostF (cx : Ctx) (C : Code) (σ : State) (endpc : Nat) (scN scA : Scopes) (lp : LoopCtx) : SOut → Prop
   | .norm env' => ∃ σ', Reach C σ σ' ∧ σ'.pc = endpc ∧ Same σ σ' ∧ VarsRel cx scN env' σ'.locals σ'.args
-  | .ret v => ∃ σ', Reach C σ σ' ∧ C[σ'.pc]? = some (.ins .ret) ∧ σ'.stack = v.toList ++ σ.stack ∧ σ'.frames = σ.frames
-  | .brk env' => ∃ b c, lp = some (b, c) ∧ ∀ bp, findLabel C b = some bp →
-      ∃ σ', Reach C σ σ' ∧ σ'.pc = bp ∧ Same σ σ' ∧ VarsRel cx (scA.drop d) (dropEnv env' d) σ'.locals σ'.args
-  | .cont env' => ∃ b c, lp = some (b, c) ∧ ∀ cp, findLabel C c = some cp →
-      ∃ σ', Reach C σ σ' ∧ σ'.pc = cp ∧ Same σ σ' ∧ VarsRel cx (scA.drop d) (dropEnv env' d) σ'.locals σ'.args
+  | .ret v => ∃ σ', Reach C σ σ' ∧ C[σ'.pc]? = some (.ins .ret) ∧ σ'.stack = v.toList ++ σ.stack.drop (totalSz lp) ∧
+      σ'.frames = σ.frames
+  | .brk l env' => ∃ dr e, findBrk l lp 0 = some (dr, e) ∧ ∀ bp, findLabel C e.endL = some bp →
+      ∃ σ', Reach C σ σ' ∧ σ'.pc = bp ∧ SameD dr σ σ' ∧
+        VarsRel cx (scA.drop (scA.length - e.scLen)) (dropEnv env' (scA.length - e.scLen)) σ'.locals σ'.args
+  | .cont l env' => ∃ dr e, findCont l lp 0 = some (dr, e) ∧ e.isFor = true ∧ ∀ cp, findLabel C e.postL = some cp →
+      ∃ σ', Reach C σ σ' ∧ σ'.pc = cp ∧ SameD dr σ σ' ∧
+        VarsRel cx (scA.drop (scA.length - e.scLen)) (dropEnv env' (scA.length - e.scLen)) σ'.locals σ'.args
 
 /-- the post-condition seen from an earlier state that differs only in pc / slots. -/
-theorem post_prefix {cx : Ctx} {C : Code} {σ σ0 : State} {endpc : Nat} {scN scA : Scopes} {lp : LoopCtx} {d : Nat} {out : SOut}
-    (hr : Reach C σ σ0) (hs : Same σ σ0) (h : StmtPostF cx C σ0 endpc scN scA lp d out) :
-    StmtPostF cx C σ endpc scN scA lp d out := by
+theorem post_prefix {cx : Ctx} {C : Code} {σ σ0 : State} {endpc : Nat} {scN scA : Scopes} {lp : LoopCtx} {out : SOut}
+    (hr : Reach C σ σ0) (hs : Same σ σ0) (h : StmtPostF cx C σ0 endpc scN scA lp out) :
+    StmtPostF cx C σ endpc scN scA lp out := by
   cases out with
   | norm e =>
     obtain ⟨σ', h1, h2, h3, h4⟩ := h
@@ -528,16 +611,16 @@ theorem post_prefix {cx : Ctx} {C : Code} {σ σ0 : State} {endpc : Nat} {scN sc
   | ret v =>
     obtain ⟨σ', h1, h2, h3, h4⟩ := h
     exact ⟨σ', hr.trans h1, h2, by rw [h3, hs.stack], by rw [h4, hs.frames]⟩
-  | brk e =>
-    obtain ⟨b, c, hl, h⟩ := h
-    refine ⟨b, c, hl, fun bp hb => ?_⟩
+  | brk l e =>
+    obtain ⟨dr, en, hl, h⟩ := h
+    refine ⟨dr, en, hl, fun bp hb => ?_⟩
     obtain ⟨σ', h1, h2, h3, h4⟩ := h bp hb
-    exact ⟨σ', hr.trans h1, h2, hs.trans h3, h4⟩
-  | cont e =>
-    obtain ⟨b, c, hl, h⟩ := h
-    refine ⟨b, c, hl, fun bp hb => ?_⟩
+    exact ⟨σ', hr.trans h1, h2, SameD.of_same hs h3, h4⟩
+  | cont l e =>
+    obtain ⟨dr, en, hl, hf, h⟩ := h
+    refine ⟨dr, en, hl, hf, fun bp hb => ?_⟩
     obtain ⟨σ', h1, h2, h3, h4⟩ := h bp hb
-    exact ⟨σ', hr.trans h1, h2, hs.trans h3, h4⟩
+    exact ⟨σ', hr.trans h1, h2, SameD.of_same hs h3, h4⟩
 
 theorem dropEnv_pop (env : Env) (d : Nat) : dropEnv env.pop d = dropEnv env (d + 1) := by
   simp [dropEnv, Env.pop, List.drop_tail]
@@ -548,26 +631,101 @@ theorem drop_of_tail_eq {α : Type} {a b : List α} {d : Nat} (h : a.tail = b.ta
   | succ n =>
     cases a <;> cases b <;> simp_all
 
-/-- an abrupt exit (break / continue / return) seen from one scope further out. -/
-theorem post_pop {cx : Ctx} {C : Code} {σ : State} {e1 e2 : Nat} {scN scN' scA : Scopes} {lp : LoopCtx} {d : Nat} {env' : Env} :
-    (StmtPostF cx C σ e1 scN ([] :: scA) lp (d + 1) (.brk env') → StmtPostF cx C σ e2 scN' scA lp d (.brk env'.pop)) ∧
-    (StmtPostF cx C σ e1 scN ([] :: scA) lp (d + 1) (.cont env') → StmtPostF cx C σ e2 scN' scA lp d (.cont env'.pop)) := by
-  constructor <;> intro h <;> obtain ⟨b, c, hl, h⟩ := h <;> refine ⟨b, c, hl, fun bp hb => ?_⟩ <;>
-    obtain ⟨σ', h1, h2, h3, h4⟩ := h bp hb <;>
-    exact ⟨σ', h1, h2, h3, by simpa [dropEnv_pop] using h4⟩
+/-- every enclosing statement's scope depth is below (`Deep`) / at most (`Deepish`) the current one. -/
+def Deep (lp : LoopCtx) (n : Nat) : Prop := ∀ e ∈ lp, e.scLen < n
+def Deepish (lp : LoopCtx) (n : Nat) : Prop := ∀ e ∈ lp, e.scLen ≤ n
 
-theorem post_ret {cx : Ctx} {C : Code} {σ : State} {e1 e2 : Nat} {scN scN' scA scA' : Scopes} {lp lp' : LoopCtx} {d d' : Nat} {v : Option Val}
-    (h : StmtPostF cx C σ e1 scN scA lp d (.ret v)) : StmtPostF cx C σ e2 scN' scA' lp' d' (.ret v) := h
+theorem Deep.ish {lp : LoopCtx} {n : Nat} (h : Deep lp n) : Deepish lp n := fun e he => Nat.le_of_lt (h e he)
+theorem Deepish.succ {lp : LoopCtx} {n : Nat} (h : Deepish lp n) : Deep lp (n + 1) := fun e he => Nat.lt_succ_of_le (h e he)
+theorem Deep.mono {lp : LoopCtx} {n m : Nat} (h : Deep lp n) (hnm : n ≤ m) : Deep lp m := fun e he => Nat.lt_of_lt_of_le (h e he) hnm
+
+theorem findBrk_mem {l : Option String} {lp : LoopCtx} {acc dr : Nat} {e : LEntry} (h : findBrk l lp acc = some (dr, e)) : e ∈ lp := by
+  induction lp generalizing acc with
+  | nil => simp [findBrk] at h
+  | cons a r ih =>
+    cases l with
+    | none => simp [findBrk] at h; simp [h.2]
+    | some x =>
+      simp only [findBrk] at h
+      split at h
+      · cases h; simp
+      · exact List.mem_cons_of_mem _ (ih h)
+
+theorem findCont_mem {l : Option String} {lp : LoopCtx} {acc dr : Nat} {e : LEntry} (h : findCont l lp acc = some (dr, e)) : e ∈ lp := by
+  induction lp generalizing acc with
+  | nil => simp [findCont] at h
+  | cons a r ih =>
+    cases l with
+    | none =>
+      simp only [findCont] at h
+      split at h
+      · cases h; simp
+      · exact List.mem_cons_of_mem _ (ih h)
+    | some x =>
+      simp only [findCont] at h
+      split at h
+      · cases h; simp
+      · exact List.mem_cons_of_mem _ (ih h)
+
+/-- an abrupt exit (break / continue) seen from one scope further out. -/
+theorem post_pop' {cx : Ctx} {C : Code} {σ : State} {e1 e2 : Nat} {scN scN' scA scB : Scopes} {lp : LoopCtx} {l : Option String} {env' : Env}
+    (hd : Deepish lp scA.length) (ht : scB.tail = scA) (hlen : scB.length = scA.length + 1) :
+    (StmtPostF cx C σ e1 scN scB lp (.brk l env') → StmtPostF cx C σ e2 scN' scA lp (.brk l env'.pop)) ∧
+    (StmtPostF cx C σ e1 scN scB lp (.cont l env') → StmtPostF cx C σ e2 scN' scA lp (.cont l env'.pop)) := by
+  have hdrop : ∀ k, scB.drop (k + 1) = scA.drop k := by
+    intro k; rw [← ht]; cases scB <;> simp
+  constructor
+  · intro h
+    obtain ⟨dr, en, hl, h⟩ := h
+    refine ⟨dr, en, hl, fun bp hb => ?_⟩
+    obtain ⟨σ', h1, h2, h3, h4⟩ := h bp hb
+    refine ⟨σ', h1, h2, h3, ?_⟩
+    have hle := hd en (findBrk_mem hl)
+    have : scB.length - en.scLen = (scA.length - en.scLen) + 1 := by omega
+    rw [this, hdrop] at h4
+    simpa [dropEnv_pop] using h4
+  · intro h
+    obtain ⟨dr, en, hl, hf, h⟩ := h
+    refine ⟨dr, en, hl, hf, fun bp hb => ?_⟩
+    obtain ⟨σ', h1, h2, h3, h4⟩ := h bp hb
+    refine ⟨σ', h1, h2, h3, ?_⟩
+    have hle := hd en (findCont_mem hl)
+    have : scB.length - en.scLen = (scA.length - en.scLen) + 1 := by omega
+    rw [this, hdrop] at h4
+    simpa [dropEnv_pop] using h4
+
+theorem post_pop {cx : Ctx} {C : Code} {σ : State} {e1 e2 : Nat} {scN scN' scA : Scopes} {lp : LoopCtx} {l : Option String} {env' : Env}
+    (hd : Deepish lp scA.length) :
+    (StmtPostF cx C σ e1 scN ([] :: scA) lp (.brk l env') → StmtPostF cx C σ e2 scN' scA lp (.brk l env'.pop)) ∧
+    (StmtPostF cx C σ e1 scN ([] :: scA) lp (.cont l env') → StmtPostF cx C σ e2 scN' scA lp (.cont l env'.pop)) :=
+  post_pop' hd rfl rfl
+
+theorem post_ret {cx : Ctx} {C : Code} {σ : State} {e1 e2 : Nat} {scN scN' scA scA' : Scopes} {lp : LoopCtx} {v : Option Val}
+    (h : StmtPostF cx C σ e1 scN scA lp (.ret v)) : StmtPostF cx C σ e2 scN' scA' lp (.ret v) := h
 
 /-- the same for a statement that follows others in its block (they may have declared into the innermost scope). -/
-theorem post_seq {cx : Ctx} {C : Code} {σ : State} {e1 e2 : Nat} {scN scN' scA scA' : Scopes} {lp : LoopCtx} {d : Nat}
-    (ht : scA.tail = scA'.tail) (hd : 1 ≤ d) {out : SOut} (hne : ∀ e, out ≠ .norm e)
-    (h : StmtPostF cx C σ e1 scN scA lp d out) : StmtPostF cx C σ e2 scN' scA' lp d out := by
+theorem post_seq {cx : Ctx} {C : Code} {σ : State} {e1 e2 : Nat} {scN scN' scA scA' : Scopes} {lp : LoopCtx}
+    (ht : scA.tail = scA'.tail) (hlen : scA.length = scA'.length) (hd : Deep lp scA.length) {out : SOut} (hne : ∀ e, out ≠ .norm e)
+    (h : StmtPostF cx C σ e1 scN scA lp out) : StmtPostF cx C σ e2 scN' scA' lp out := by
   cases out with
   | norm e => exact absurd rfl (hne e)
   | ret v => exact h
-  | brk e => simpa [StmtPostF, drop_of_tail_eq ht hd] using h
-  | cont e => simpa [StmtPostF, drop_of_tail_eq ht hd] using h
+  | brk l e =>
+    obtain ⟨dr, en, hl, h⟩ := h
+    refine ⟨dr, en, hl, fun bp hb => ?_⟩
+    obtain ⟨σ', h1, h2, h3, h4⟩ := h bp hb
+    have := hd en (findBrk_mem hl)
+    refine ⟨σ', h1, h2, h3, ?_⟩
+    rw [← hlen, ← drop_of_tail_eq ht (by omega)]
+    exact h4
+  | cont l e =>
+    obtain ⟨dr, en, hl, hf, h⟩ := h
+    refine ⟨dr, en, hl, hf, fun bp hb => ?_⟩
+    obtain ⟨σ', h1, h2, h3, h4⟩ := h bp hb
+    have := hd en (findCont_mem hl)
+    refine ⟨σ', h1, h2, h3, ?_⟩
+    rw [← hlen, ← drop_of_tail_eq ht (by omega)]
+    exact h4
 
 /-- a call in statement position (result dropped by the caller). -/
 def CallSOK (P : Prog) (C : Code) (fuel : Nat) : Prop :=
@@ -576,33 +734,103 @@ def CallSOK (P : Prog) (C : Code) (fuel : Nat) : Prop :=
     C[σ.pc]? = some (.ins (.call (fnLabel P f))) → σ.frames.length + fuel < 1024 →
     ∃ r : List Val, r.length = fnRes P f ∧ Reach C σ { σ with pc := σ.pc + 1, stack := r ++ rest }
 
-/-- statements. `il`: break/continue may occur; then `lp` holds the enclosing loop's labels. -/
+/-- the invariants that tie the compile-time context to `Allowed`'s view of it and to the machine state: the
+    enclosing statements are the ones `Allowed` was told about, no Go label is waiting in `nextLabel`, the stack
+    holds (at least) the tags of the enclosing `switch` statements, at most three of them. -/
+structure Inv (lp : LoopCtx) (ls : Sigs) (st : St) (σ : State) : Prop where
+  sig : sigOf lp = ls
+  noLabel : st.nextLabel = none
+  stk : totalSz lp ≤ σ.stack.length
+  few : totalSz lp ≤ 3
+
+/-- statements. -/
 def StmtFOK (P : Prog) (C : Code) (cx : Ctx) (fuel : Nat) : Prop :=
-  ∀ (s : Stmt) (lp : LoopCtx) (d : Nat) (il : Bool) (st : St) (env : Env) (σ : State) (out : SOut),
-    Allowed il s → (il = true → ∃ b c, lp = some (b, c)) → (1 ≤ d ∨ ∃ b, s = .block b) →
+  ∀ (s : Stmt) (lp : LoopCtx) (ls : Sigs) (st : St) (env : Env) (σ : State) (out : SOut),
+    Allowed ls s → Inv lp ls st σ → (Deep lp st.scopes.length ∨ (∃ b, s = .block b) ∧ Deepish lp st.scopes.length) →
     exec fuel P env s = .ok out →
     Placed C σ.pc (compS cx lp s st).1 →
     VarsRel cx st.scopes env σ.locals σ.args → Wf st →
     (compS cx lp s st).2.cnt ≤ σ.locals.length → σ.frames.length + fuel < 1024 →
-    StmtPostF cx C σ (σ.pc + (compS cx lp s st).1.length) (compS cx lp s st).2.scopes st.scopes lp d out
+    StmtPostF cx C σ (σ.pc + (compS cx lp s st).1.length) (compS cx lp s st).2.scopes st.scopes lp out
 
-/-- what the remaining iterations of a loop achieve (break/continue do not leave a loop). -/
-def IterPost (cx : Ctx) (C : Code) (σ : State) (endpc : Nat) (sc : Scopes) : SOut → Prop
-  | .norm env' => ∃ σ', Reach C σ σ' ∧ σ'.pc = endpc ∧ Same σ σ' ∧ VarsRel cx sc env' σ'.locals σ'.args
-  | .ret v => ∃ σ', Reach C σ σ' ∧ C[σ'.pc]? = some (.ins .ret) ∧ σ'.stack = v.toList ++ σ.stack ∧ σ'.frames = σ.frames
-  | .brk _ => False
-  | .cont _ => False
+/-- what the remaining iterations of a loop achieve: `break`/`continue` that concern the loop itself are consumed,
+    the others are on their way to an enclosing statement. -/
+def IterPost (cx : Ctx) (C : Code) (σ : State) (endpc : Nat) (sc : Scopes) (lp : LoopCtx) : SOut → Prop :=
+  StmtPostF cx C σ endpc sc sc lp
 
 /-- the iterations of a loop whose code starts at `pc0`; the machine is at the loop head mark. -/
 def IterOK (P : Prog) (C : Code) (cx : Ctx) (fuel : Nat) : Prop :=
-  ∀ (init : Stmt) (cond : Option Expr) (post body : Stmt) (lp : LoopCtx) (st : St) (env : Env) (σ : State) (pc0 : Nat) (out : SOut),
-    Allowed true body → NoDecl post →
-    iter fuel P env cond post body = .ok out →
+  ∀ (init : Stmt) (cond : Option Expr) (post body : Stmt) (lp : LoopCtx) (ls : Sigs) (st : St) (env : Env) (σ : State) (pc0 : Nat) (out : SOut),
+    Allowed ((st.nextLabel, true) :: ls) body → NoDecl post → sigOf lp = ls → totalSz lp ≤ σ.stack.length → totalSz lp ≤ 3 →
+    Deepish lp st.scopes.length → (forSt1 cx lp init st).nextLabel = none →
+    iter fuel P env st.nextLabel cond post body = .ok out →
     Placed C pc0 (compS cx lp (.loop init cond post body) st).1 →
     σ.pc = pc0 + (compS cx lp init (forSt0 st)).1.length →
     VarsRel cx (forSt1 cx lp init st).scopes env σ.locals σ.args → Wf st →
     (compS cx lp (.loop init cond post body) st).2.cnt ≤ σ.locals.length → σ.frames.length + fuel < 1024 →
-    IterPost cx C σ (pc0 + (compS cx lp (.loop init cond post body) st).1.length) (forSt1 cx lp init st).scopes out
+    IterPost cx C σ (pc0 + (compS cx lp (.loop init cond post body) st).1.length) (forSt1 cx lp init st).scopes lp out
+
+/-- a `for` statement; its Go label (if any) is waiting in `st.nextLabel`. -/
+def LoopOK (P : Prog) (C : Code) (cx : Ctx) (fuel : Nat) : Prop :=
+  ∀ (init : Stmt) (cond : Option Expr) (post body : Stmt) (lp : LoopCtx) (ls : Sigs) (st : St) (env : Env) (σ : State) (out : SOut),
+    Allowed ls init → NoDecl post → Allowed ((st.nextLabel, true) :: ls) body →
+    sigOf lp = ls → totalSz lp ≤ σ.stack.length → totalSz lp ≤ 3 → Deepish lp st.scopes.length →
+    execLoop fuel P env st.nextLabel init cond post body = .ok out →
+    Placed C σ.pc (compS cx lp (.loop init cond post body) st).1 →
+    VarsRel cx st.scopes env σ.locals σ.args → Wf st →
+    (compS cx lp (.loop init cond post body) st).2.cnt ≤ σ.locals.length → σ.frames.length + fuel < 1024 →
+    StmtPostF cx C σ (σ.pc + (compS cx lp (.loop init cond post body) st).1.length)
+      (compS cx lp (.loop init cond post body) st).2.scopes st.scopes lp out
+
+/-- a `switch` statement; its Go label (if any) is waiting in `st.nextLabel`. -/
+def SwitchOK (P : Prog) (C : Code) (cx : Ctx) (fuel : Nat) : Prop :=
+  ∀ (tag : Option Expr) (ti : Bool) (cl : Stmt) (lp : LoopCtx) (ls : Sigs) (st : St) (env : Env) (σ : State) (out : SOut),
+    swCount ls < 3 → AllowedCl ((st.nextLabel, false) :: ls) cl →
+    sigOf lp = ls → totalSz lp ≤ σ.stack.length → Deepish lp st.scopes.length →
+    execSwitch fuel P env st.nextLabel tag ti cl = .ok out →
+    Placed C σ.pc (compS cx lp (.switchS tag ti cl) st).1 →
+    VarsRel cx st.scopes env σ.locals σ.args → Wf st →
+    (compS cx lp (.switchS tag ti cl) st).2.cnt ≤ σ.locals.length → σ.frames.length + fuel < 1024 →
+    StmtPostF cx C σ (σ.pc + (compS cx lp (.switchS tag ti cl) st).1.length)
+      (compS cx lp (.switchS tag ti cl) st).2.scopes st.scopes lp out
+
+/-- the facts a clause chain is compiled and run under: `lp = ent :: lp0` with `ent` the switch, the tag `tv` on top
+    of the stack, the end mark right behind the chain. -/
+structure SwCtx (C : Code) (lp : LoopCtx) (ls : Sigs) (st : St) (σ : State) (ti : Bool) (tv : Val) (pcEnd : Nat) : Prop where
+  sig : sigOf lp = ls
+  ent : ∃ e lp0, lp = e :: lp0 ∧ e.isFor = false ∧ e.eqNum = ti ∧ e.scLen = st.scopes.length ∧ findLabel C e.endL = some pcEnd
+  tag : ∃ rest, σ.stack = tv :: rest
+  noLabel : st.nextLabel = none
+  stk : totalSz lp ≤ σ.stack.length
+  few : totalSz lp ≤ 3
+  deep : Deepish lp st.scopes.length
+
+/-- the clause chain of a `switch`: the machine is at the first test. -/
+def CasesOK (P : Prog) (C : Code) (cx : Ctx) (fuel : Nat) : Prop :=
+  ∀ (cl : Stmt) (lp : LoopCtx) (ls : Sigs) (st : St) (env : Env) (σ : State) (ti : Bool) (tv : Val) (out : SOut),
+    AllowedCl ls cl → SwCtx C lp ls st σ ti tv (σ.pc + (compS cx lp cl st).1.length) →
+    execCases fuel P env tv ti cl = .ok out →
+    Placed C σ.pc (compS cx lp cl st).1 →
+    VarsRel cx st.scopes env σ.locals σ.args → Wf st →
+    (compS cx lp cl st).2.cnt ≤ σ.locals.length → σ.frames.length + fuel < 1024 →
+    StmtPostF cx C σ (σ.pc + (compS cx lp cl st).1.length) st.scopes st.scopes lp out
+
+/-- number of items in front of the start mark of a clause (its tests). -/
+def testsLen (cx : Ctx) (lp : LoopCtx) (st : St) : Stmt → Nat
+  | .caseS e1 e2 _ _ _ => (csTests cx lp e1 e2 st).1.length
+  | _ => 0
+
+/-- the body of the first clause of the chain `cl` (entered after a successful test or by `fallthrough`): the
+    machine is at the clause's start mark. -/
+def BodyOK (P : Prog) (C : Code) (cx : Ctx) (fuel : Nat) : Prop :=
+  ∀ (cl body rest : Stmt) (ft : Bool) (lp : LoopCtx) (ls : Sigs) (st : St) (env : Env) (σ : State) (pc0 : Nat) (ti : Bool) (tv : Val) (out : SOut),
+    ((∃ e1 e2, cl = .caseS e1 e2 body ft rest) ∨ (cl = .defaultS body ∧ ft = false ∧ rest = .skip)) →
+    AllowedCl ls cl → SwCtx C lp ls st σ ti tv (pc0 + (compS cx lp cl st).1.length) →
+    execBody fuel P env body ft rest = .ok out →
+    Placed C pc0 (compS cx lp cl st).1 → σ.pc = pc0 + testsLen cx lp st cl →
+    VarsRel cx st.scopes env σ.locals σ.args → Wf st →
+    (compS cx lp cl st).2.cnt ≤ σ.locals.length → σ.frames.length + fuel < 1024 →
+    StmtPostF cx C σ (pc0 + (compS cx lp cl st).1.length) st.scopes st.scopes lp out
 
 end NeoModel.CompileProofs
 
@@ -655,13 +883,13 @@ theorem run_dropN {C : Code} (n : Nat) : ∀ (σ : State) (r rest : List Val), P
 
 /-- a call statement once the arguments are on the stack: CALL, then the results are dropped. -/
 theorem callS_post {P : Prog} {C : Code} {cx : Ctx} {fuel : Nat} {σ : State} {c : Code} {f : String} {vs : List Val} {env : Env}
-    {scN : Scopes} {scA : Scopes} {lp : LoopCtx} {d : Nat}
+    {scN : Scopes} {scA : Scopes} {lp : LoopCtx}
     (htab : cx.funcs = funcTable P) (ihCS : CallSOK P C fuel)
     (hp : Placed C σ.pc (c ++ [.ins (.call (cx.func f).1)] ++ dropN (cx.func f).2))
     (hr : Reach C σ { σ with pc := σ.pc + c.length, stack := vs ++ σ.stack })
     (hcall : callS fuel P f vs = .ok ()) (hdep : σ.frames.length + fuel < 1024)
     (hrel : VarsRel cx scN env σ.locals σ.args) :
-    StmtPostF cx C σ (σ.pc + (c ++ [Item.ins (.call (cx.func f).1)] ++ dropN (cx.func f).2).length) scN scA lp d (.norm env) := by
+    StmtPostF cx C σ (σ.pc + (c ++ [Item.ins (.call (cx.func f).1)] ++ dropN (cx.func f).2).length) scN scA lp (.norm env) := by
   have hf : C[σ.pc + c.length]? = some (.ins (.call (cx.func f).1)) := hp.left.right.head
   have hres : (cx.func f).2 = fnRes P f := by rw [ctx_func htab]
   rw [ctx_func htab] at hf
@@ -679,7 +907,7 @@ theorem noDecl_state {cx : Ctx} {lp : LoopCtx} {p : Stmt} (h : NoDecl p) (st : S
 
 theorem forSt3_scopes (cx : Ctx) (lp : LoopCtx) (init : Stmt) (cond : Option Expr) (body : Stmt) (st : St) :
     (forSt3 cx lp init cond body st).scopes = (forSt1 cx lp init st).scopes := by
-  have hb := compS_tail cx body (some (st.nl + 1, st.nl + 2)) (forStB cx lp init cond st) (by simp)
+  have hb := compS_tail cx body (forEnt st :: lp) (forStB cx lp init cond st) (by simp)
   simp only [forStB_scopes, List.tail_cons] at hb
   simp [forSt3, hb]
 
@@ -688,17 +916,327 @@ theorem forSt1_tail (cx : Ctx) (lp : LoopCtx) (init : Stmt) (st : St) :
   have h0 := compS_tail cx init lp (forSt0 st) (by simp)
   simpa [forSt1] using h0
 
+theorem Inv.to {lp : LoopCtx} {ls : Sigs} {st st' : St} {σ σ' : State} (h : Inv lp ls st σ)
+    (hn : st'.nextLabel = none) (hs : σ'.stack.length = σ.stack.length) : Inv lp ls st' σ' :=
+  ⟨h.sig, hn, by rw [hs]; exact h.stk, h.few⟩
+
+/-- Go labels sit on `for` and `switch` statements only. -/
+def LabelsOK : Stmt → Prop
+  | .seq a b => LabelsOK a ∧ LabelsOK b
+  | .ite _ t _ e => LabelsOK t ∧ LabelsOK e
+  | .loop i _ p b => LabelsOK i ∧ LabelsOK p ∧ LabelsOK b
+  | .block b => LabelsOK b
+  | .labeled _ (.loop i _ p b) => LabelsOK i ∧ LabelsOK p ∧ LabelsOK b
+  | .labeled _ (.switchS _ _ cl) => LabelsOK cl
+  | .labeled _ _ => False
+  | .switchS _ _ cl => LabelsOK cl
+  | .caseS _ _ b _ rest => LabelsOK b ∧ LabelsOK rest
+  | .defaultS b => LabelsOK b
+  | _ => True
+
+theorem noDecl_labelsOK {p : Stmt} (h : NoDecl p) : LabelsOK p := by
+  cases p <;> simp [NoDecl] at h <;> simp [LabelsOK]
+
+mutual
+theorem allowed_labelsOK : ∀ (s : Stmt) (ls : Sigs), Allowed ls s → LabelsOK s
+  | .seq a b, ls, h => by simp only [Allowed] at h; exact ⟨allowed_labelsOK a ls h.1, allowed_labelsOK b ls h.2⟩
+  | .ite _ t _ e, ls, h => by simp only [Allowed] at h; exact ⟨allowed_labelsOK t ls h.1, allowed_labelsOK e ls h.2⟩
+  | .loop i _ p b, ls, h => by
+    simp only [Allowed] at h; exact ⟨allowed_labelsOK i ls h.1, noDecl_labelsOK h.2.1, allowed_labelsOK b _ h.2.2⟩
+  | .block b, ls, h => by simp only [Allowed] at h; exact allowed_labelsOK b ls h
+  | .labeled _ (.loop i _ p b), ls, h => by
+    simp only [Allowed] at h; exact ⟨allowed_labelsOK i ls h.1, noDecl_labelsOK h.2.1, allowed_labelsOK b _ h.2.2⟩
+  | .labeled _ (.switchS _ _ cl), ls, h => by simp only [Allowed] at h; exact allowedCl_labelsOK cl _ h.2
+  | .switchS _ _ cl, ls, h => by simp only [Allowed] at h; exact allowedCl_labelsOK cl _ h.2
+  | .caseS _ _ _ _ _, _, h => by simp [Allowed] at h
+  | .defaultS _, _, h => by simp [Allowed] at h
+  | .skip, _, _ | .define _ _, _, _ | .assign _ _, _, _ | .opAssign _ _ _, _, _ | .inc _, _, _ | .dec _, _, _
+  | .varDecl _ _ _, _, _ | .exprStmt _, _, _ | .discard _, _, _ | .panicS _, _, _ | .ret _, _, _ | .brk, _, _ | .cont, _, _
+  | .brkL _, _, _ | .contL _, _, _ => trivial
+  | .labeled _ .skip, _, h | .labeled _ (.seq _ _), _, h | .labeled _ (.define _ _), _, h | .labeled _ (.assign _ _), _, h
+  | .labeled _ (.opAssign _ _ _), _, h | .labeled _ (.inc _), _, h | .labeled _ (.dec _), _, h | .labeled _ (.varDecl _ _ _), _, h
+  | .labeled _ (.exprStmt _), _, h | .labeled _ (.discard _), _, h | .labeled _ (.panicS _), _, h | .labeled _ (.ite _ _ _ _), _, h
+  | .labeled _ (.ret _), _, h | .labeled _ .brk, _, h | .labeled _ .cont, _, h | .labeled _ (.block _), _, h
+  | .labeled _ (.labeled _ _), _, h | .labeled _ (.brkL _), _, h | .labeled _ (.contL _), _, h
+  | .labeled _ (.caseS _ _ _ _ _), _, h | .labeled _ (.defaultS _), _, h => by simp [Allowed] at h
+theorem allowedCl_labelsOK : ∀ (cl : Stmt) (ls : Sigs), AllowedCl ls cl → LabelsOK cl
+  | .skip, _, _ => trivial
+  | .defaultS b, ls, h => by simp only [AllowedCl] at h; exact allowed_labelsOK b ls h
+  | .caseS _ _ b _ rest, ls, h => by simp only [AllowedCl] at h; exact ⟨allowed_labelsOK b ls h.1, allowedCl_labelsOK rest ls h.2.1⟩
+  | .seq _ _, _, h | .define _ _, _, h | .assign _ _, _, h | .opAssign _ _ _, _, h | .inc _, _, h | .dec _, _, h
+  | .varDecl _ _ _, _, h | .exprStmt _, _, h | .discard _, _, h | .panicS _, _, h | .ite _ _ _ _, _, h
+  | .loop _ _ _ _, _, h | .ret _, _, h | .brk, _, h | .cont, _, h | .block _, _, h | .labeled _ _, _, h
+  | .brkL _, _, h | .contL _, _, h | .switchS _ _ _, _, h => by simp [AllowedCl] at h
+end
+
+/-- the statement consumes a waiting Go label. -/
+def IsLS : Stmt → Prop
+  | .loop _ _ _ _ | .switchS _ _ _ => True
+  | _ => False
+
+/-- no Go label is left waiting after a statement (labels sit on `for` / `switch` only, which consume them). -/
+theorem compS_noLabel (cx : Ctx) : ∀ (s : Stmt) (lp : LoopCtx) (st : St), LabelsOK s → (st.nextLabel = none ∨ IsLS s) →
+    (compS cx lp s st).2.nextLabel = none := by
+  intro s
+  induction s with
+  | skip => intro lp st _ h; rcases h with h | h; exact h; exact h.elim
+  | seq a b iha ihb =>
+    intro lp st hl h
+    rcases h with h | h
+    · simp only [compS]; exact ihb lp _ hl.2 (Or.inl (iha lp st hl.1 (Or.inl h)))
+    · exact h.elim
+  | define x e =>
+    intro lp st _ h
+    rcases h with h | h
+    · simp only [compS]; unfold St.newLocal; cases st.scopes <;> exact h
+    · exact h.elim
+  | assign x e => intro lp st _ h; rcases h with h | h; exact h; exact h.elim
+  | opAssign x op e => intro lp st _ h; rcases h with h | h; exact h; exact h.elim
+  | inc x => intro lp st _ h; rcases h with h | h; exact h; exact h.elim
+  | dec x => intro lp st _ h; rcases h with h | h; exact h; exact h.elim
+  | varDecl x b init =>
+    intro lp st _ h
+    rcases h with h | h
+    · cases init <;> simp only [compS] <;> unfold St.newLocal <;> cases st.scopes <;> exact h
+    · exact h.elim
+  | exprStmt e => intro lp st _ h; rcases h with h | h; exact h; exact h.elim
+  | discard e => intro lp st _ h; rcases h with h | h; exact h; exact h.elim
+  | panicS e => intro lp st _ h; rcases h with h | h; exact h; exact h.elim
+  | ite c thn k els iht ihe =>
+    intro lp st hl h
+    rcases h with h | h
+    · have ht := iht lp (ifStT cx c st) hl.1 (Or.inl h)
+      cases k with
+      | none => rw [compS_ite_none]; exact ht
+      | block => rw [compS_ite_block]; exact ihe lp _ hl.2 (Or.inl ht)
+      | elif => rw [compS_ite_elif]; exact ihe lp _ hl.2 (Or.inl ht)
+    · exact h.elim
+  | loop init cond post body ihi ihp ihb =>
+    intro lp st hl _
+    rw [compS_loop]
+    have h1 := ihi lp (forSt0 st) hl.1 (Or.inl rfl)
+    have h3 : (forSt3 cx lp init cond body st).nextLabel = none := ihb (forEnt st :: lp) (forStB cx lp init cond st) hl.2.2 (Or.inl h1)
+    exact ihp lp _ hl.2.1 (Or.inl h3)
+  | ret e => intro lp st _ h; rcases h with h | h; (cases e <;> exact h); exact h.elim
+  | brk => intro lp st _ h; rcases h with h | h; exact h; exact h.elim
+  | cont => intro lp st _ h; rcases h with h | h; exact h; exact h.elim
+  | block body ih =>
+    intro lp st hl h
+    rcases h with h | h
+    · rw [compS_block]; exact ih lp st.push hl (Or.inl h)
+    · exact h.elim
+  | labeled l s ih =>
+    intro lp st hl h
+    rw [compS_labeled]
+    cases s with
+    | loop i c p b => exact ih lp _ hl (Or.inr trivial)
+    | switchS t ti cl => exact ih lp _ hl (Or.inr trivial)
+    | _ => exact hl.elim
+  | brkL l =>
+    intro lp st _ h
+    rcases h with h | h
+    · simp only [compS]
+      rcases phantom_cases cx st l with h' | h' <;> rw [h']
+      · exact h
+      · unfold St.newLocal; cases st.scopes <;> exact h
+    · exact h.elim
+  | contL l =>
+    intro lp st _ h
+    rcases h with h | h
+    · simp only [compS]
+      rcases phantom_cases cx st l with h' | h' <;> rw [h']
+      · exact h
+      · unfold St.newLocal; cases st.scopes <;> exact h
+    · exact h.elim
+  | switchS tag ti cl ih =>
+    intro lp st hl _
+    rw [compS_switch]
+    exact ih (swEnt cx tag ti st :: lp) (swSt1 cx tag cl st) hl (Or.inl rfl)
+  | caseS e1 e2 body ft rest ihb ihr =>
+    intro lp st hl h
+    rcases h with h | h
+    · rw [compS_case]
+      have hb : (csStR cx lp e1 e2 body st).nextLabel = none := ihb lp (csStB cx lp e1 e2 st) hl.1 (Or.inl h)
+      exact ihr lp _ hl.2 (Or.inl hb)
+    · exact h.elim
+  | defaultS body ih =>
+    intro lp st hl h
+    rcases h with h | h
+    · rw [compS_default]; exact ih lp (dfStB st) hl (Or.inl h)
+    · exact h.elim
+
+theorem dropItems_small {k : Nat} (h : k ≤ 3) : dropItems k = dropN k := by
+  unfold dropItems; rw [if_pos (by omega)]
+
+/-- dropItems for at most three items: that many DROPs. -/
+theorem run_dropItems {C : Code} {σ : State} {k : Nat} (h3 : k ≤ 3) (hk : k ≤ σ.stack.length)
+    (hp : Placed C σ.pc (dropItems k)) :
+    Reach C σ { σ with pc := σ.pc + (dropItems k).length, stack := σ.stack.drop k } := by
+  rw [dropItems_small h3] at hp ⊢
+  have := run_dropN (C := C) k σ (σ.stack.take k) (σ.stack.drop k) hp (by simp) (by simp; omega)
+  simpa [dropN_length] using this
+
+/-- `break` / `continue` once the target is known: the tags of the statements that are left are dropped, then the
+    jump; whatever follows (the dead load of a labeled branch) is not reached. -/
+theorem run_branch {C : Code} {σ : State} {dr tgt : Nat} {tail : Code}
+    (hp : Placed C σ.pc (dropItems dr ++ [.ins (.jmp tgt)] ++ tail)) (h3 : dr ≤ 3) (hk : dr ≤ σ.stack.length)
+    (bp : Nat) (hb : findLabel C tgt = some bp) :
+    ∃ σ', Reach C σ σ' ∧ σ'.pc = bp ∧ SameD dr σ σ' ∧ σ'.locals = σ.locals ∧ σ'.args = σ.args := by
+  have h1 := run_dropItems h3 hk hp.left.left
+  have hj := step_jmp (s := { σ with pc := σ.pc + (dropItems dr).length, stack := σ.stack.drop dr }) hp.left.right.head hb
+  exact ⟨_, h1.trans (Reach.step hj), rfl, ⟨rfl, rfl, rfl, rfl⟩, rfl, rfl⟩
+
+theorem findBrk_le {l : Option String} {lp : LoopCtx} {acc dr : Nat} {e : LEntry} (h : findBrk l lp acc = some (dr, e)) :
+    acc ≤ dr ∧ dr ≤ acc + totalSz lp := by
+  induction lp generalizing acc with
+  | nil => simp [findBrk] at h
+  | cons a r ih =>
+    cases l with
+    | none => simp [findBrk] at h; simp [totalSz]; omega
+    | some x =>
+      simp only [findBrk] at h
+      split at h
+      · cases h; simp [totalSz]
+      · have := ih h; simp only [totalSz]; omega
+
+theorem findCont_le {l : Option String} {lp : LoopCtx} {acc dr : Nat} {e : LEntry} (h : findCont l lp acc = some (dr, e)) :
+    acc ≤ dr ∧ dr ≤ acc + totalSz lp := by
+  induction lp generalizing acc with
+  | nil => simp [findCont] at h
+  | cons a r ih =>
+    cases l with
+    | none =>
+      simp only [findCont] at h
+      split at h
+      · cases h; simp [totalSz]
+      · have := ih h; simp only [totalSz]; omega
+    | some x =>
+      simp only [findCont] at h
+      split at h
+      · cases h; simp [totalSz]
+      · have := ih h; simp only [totalSz]; omega
+
+theorem findCont_none_isFor {lp : LoopCtx} {acc dr : Nat} {e : LEntry} (h : findCont none lp acc = some (dr, e)) : e.isFor = true := by
+  induction lp generalizing acc with
+  | nil => simp [findCont] at h
+  | cons a r ih =>
+    simp only [findCont] at h
+    split at h
+    · rename_i hc; cases h; exact hc
+    · exact ih h
+
+theorem findCont_some_isFor {lp : LoopCtx} {x : String} {acc dr : Nat} {e : LEntry}
+    (ht : contTarget x (sigOf lp) = true) (h : findCont (some x) lp acc = some (dr, e)) : e.isFor = true := by
+  induction lp generalizing acc with
+  | nil => simp [findCont] at h
+  | cons a r ih =>
+    simp only [findCont] at h
+    simp only [sigOf, List.map_cons, contTarget] at ht
+    split at h
+    · rename_i hc; cases h; rw [if_pos hc] at ht; exact ht
+    · rename_i hc; rw [if_neg hc] at ht; exact ih ht h
+
+/-- targets exist where `Allowed` says so. -/
+theorem findBrk_none_ex {lp : LoopCtx} (h : sigOf lp ≠ []) (acc : Nat) : ∃ e, findBrk none lp acc = some (acc, e) := by
+  cases lp with
+  | nil => exact absurd rfl h
+  | cons a r => exact ⟨a, by simp [findBrk]⟩
+
+theorem findBrk_some_ex {lp : LoopCtx} {x : String} (h : ∃ p ∈ sigOf lp, p.1 = some x) (acc : Nat) :
+    ∃ dr e, findBrk (some x) lp acc = some (dr, e) := by
+  induction lp generalizing acc with
+  | nil => obtain ⟨p, hp, _⟩ := h; simp [sigOf] at hp
+  | cons a r ih =>
+    simp only [findBrk]
+    by_cases hc : (a.name == some x) = true
+    · exact ⟨acc, a, by rw [if_pos hc]⟩
+    · rw [if_neg hc]
+      apply ih
+      obtain ⟨p, hp, hpx⟩ := h
+      simp only [sigOf, List.map_cons, List.mem_cons] at hp
+      rcases hp with rfl | hp
+      · simp at hpx; simp [hpx] at hc
+      · exact ⟨p, hp, hpx⟩
+
+theorem findCont_none_ex {lp : LoopCtx} (h : ∃ p ∈ sigOf lp, p.2 = true) (acc : Nat) :
+    ∃ dr e, findCont none lp acc = some (dr, e) := by
+  induction lp generalizing acc with
+  | nil => obtain ⟨p, hp, _⟩ := h; simp [sigOf] at hp
+  | cons a r ih =>
+    simp only [findCont]
+    by_cases hc : a.isFor = true
+    · exact ⟨acc, a, by rw [if_pos hc]⟩
+    · rw [if_neg hc]
+      apply ih
+      obtain ⟨p, hp, hpx⟩ := h
+      simp only [sigOf, List.map_cons, List.mem_cons] at hp
+      rcases hp with rfl | hp
+      · simp at hpx; exact absurd hpx hc
+      · exact ⟨p, hp, hpx⟩
+
+theorem findCont_some_ex {lp : LoopCtx} {x : String} (h : contTarget x (sigOf lp) = true) (acc : Nat) :
+    ∃ dr e, findCont (some x) lp acc = some (dr, e) := by
+  induction lp generalizing acc with
+  | nil => simp [sigOf, contTarget] at h
+  | cons a r ih =>
+    simp only [findCont]
+    by_cases hc : (a.name == some x) = true
+    · exact ⟨acc, a, by rw [if_pos hc]⟩
+    · rw [if_neg hc]
+      apply ih
+      simp only [sigOf, List.map_cons, contTarget] at h
+      rw [if_neg hc] at h
+      exact h
+
+theorem optstr_beq_comm (a b : Option String) : (a == b) = (b == a) := by
+  by_cases h : a = b
+  · subst h; rfl
+  · have h1 : (a == b) = false := by simpa using h
+    have h2 : (b == a) = false := by simpa using fun e => h e.symm
+    rw [h1, h2]
+
+/-- `break` (unlabeled, or labeled with the name of the innermost statement) leaves the innermost statement;
+    any other goes to the same statement as seen from outside, with the innermost statement's tag dropped too. -/
+theorem findBrk_cons (l : Option String) (e : LEntry) (lp : LoopCtx) (acc : Nat) :
+    findBrk l (e :: lp) acc = if mine l e.name then some (acc, e) else findBrk l lp (acc + e.sz) := by
+  cases l with
+  | none => simp [findBrk, mine]
+  | some x =>
+    simp only [findBrk, mine]
+    have : (some x == e.name) = (e.name == some x) := optstr_beq_comm _ _
+    simp [this]
+
+theorem findCont_cons (l : Option String) (e : LEntry) (lp : LoopCtx) (acc : Nat) (hfor : e.isFor = true) :
+    findCont l (e :: lp) acc = if mine l e.name then some (acc, e) else findCont l lp (acc + e.sz) := by
+  cases l with
+  | none => simp [findCont, mine, hfor]
+  | some x =>
+    simp only [findCont, mine]
+    have : (some x == e.name) = (e.name == some x) := optstr_beq_comm _ _
+    simp [this]
+
+/-- `continue` never refers to a `switch`: for the entry of a `switch` it is always passed on (Go rejects
+    `continue L` with `L` on a switch; `Allowed` excludes it). -/
+theorem findCont_cons_sw (l : Option String) (e : LEntry) (lp : LoopCtx) (acc : Nat) (hsw : e.isFor = false)
+    (hl : ∀ x, l = some x → (e.name == some x) = false) :
+    findCont l (e :: lp) acc = findCont l lp (acc + e.sz) := by
+  cases l with
+  | none => simp [findCont, hsw]
+  | some x => simp [findCont, hl x rfl]
+
 theorem stmtFOK_zero (P : Prog) (C : Code) (cx : Ctx) : StmtFOK P C cx 0 := by
-  intro s lp d il st env σ out _ _ _ hex
+  intro s lp ls st env σ out _ _ _ hex
   simp [exec] at hex
 
 set_option maxHeartbeats 1000000 in
 theorem stmtFOK_succ (P : Prog) (C : Code) (cx : Ctx) (fuel : Nat)
     (hn : (labelsOf C).Nodup) (htab : cx.funcs = funcTable P)
-    (ihE : ∀ sc env, ExprFOK P C cx sc env fuel) (ih : StmtFOK P C cx fuel) (ihI : IterOK P C cx fuel)
-    (ihCS : CallSOK P C fuel) : StmtFOK P C cx (fuel + 1) := by
-  intro s lp d il st env σ out hal hil hd hex hp hrel hwf hcnt hdep
+    (ihE : ∀ sc env, ExprFOK P C cx sc env fuel) (ih : StmtFOK P C cx fuel) (ihL : LoopOK P C cx fuel)
+    (ihSw : SwitchOK P C cx fuel) (ihCS : CallSOK P C fuel) : StmtFOK P C cx (fuel + 1) := by
+  intro s lp ls st env σ out hal hinv hd hex hp hrel hwf hcnt hdep
   have hdep' : σ.frames.length + fuel < 1024 := by omega
+  have hdI : Deepish lp st.scopes.length := hd.elim Deep.ish (·.2)
+  have hdS : Deep lp (st.scopes.length + 1) := hdI.succ
   cases s with
   | skip =>
     simp only [exec] at hex
@@ -707,27 +1245,30 @@ theorem stmtFOK_succ (P : Prog) (C : Code) (cx : Ctx) (fuel : Nat)
     exact ⟨σ, Reach.refl _ _, by simp, Same.refl _, hrel⟩
   | seq a b =>
     simp only [Allowed] at hal
-    have hd1 : 1 ≤ d := by
-      rcases hd with h | ⟨b', hb⟩
+    have hd1 : Deep lp st.scopes.length := by
+      rcases hd with h | ⟨⟨b', hb⟩, _⟩
       · exact h
       · cases hb
     simp only [exec] at hex
     simp only [compS] at hp hcnt ⊢
     have hmb := compS_mono cx b lp (compS cx lp a st).2 (compS_wf cx a lp st hwf).nonempty
+    have hma := compS_mono cx a lp st hwf.nonempty
     have hta := compS_tail cx a lp st hwf.nonempty
     cases ha : exec fuel P env a with
     | ok oa =>
       rw [ha] at hex
-      have hpa := ih a lp d il st env σ oa hal.1 hil (Or.inl hd1) ha hp.left hrel hwf (Nat.le_trans hmb.1 hcnt) hdep'
+      have hpa := ih a lp ls st env σ oa hal.1 hinv (Or.inl hd1) ha hp.left hrel hwf (Nat.le_trans hmb.1 hcnt) hdep'
       cases oa with
       | norm env1 =>
         simp only at hex
         obtain ⟨σ1, hr1, hpc1, hs1, hrel1⟩ := hpa
         have hpb : Placed C σ1.pc (compS cx lp b (compS cx lp a st).2).1 := by rw [hpc1]; exact hp.right
-        have hpost := ih b lp d il _ env1 σ1 out hal.2 hil (Or.inl hd1) hex hpb hrel1 (compS_wf cx a lp st hwf)
+        have hpost := ih b lp ls _ env1 σ1 out hal.2
+          (hinv.to (compS_noLabel cx a lp st (allowed_labelsOK a ls hal.1) (Or.inl hinv.noLabel)) (by rw [hs1.stack]))
+          (Or.inl (by rw [hma.2]; exact hd1)) hex hpb hrel1 (compS_wf cx a lp st hwf)
           (by rw [hs1.len]; exact hcnt) (by rw [hs1.frames]; exact hdep')
         have hpost' : StmtPostF cx C σ1 (σ.pc + ((compS cx lp a st).1 ++ (compS cx lp b (compS cx lp a st).2).1).length)
-            (compS cx lp b (compS cx lp a st).2).2.scopes (compS cx lp a st).2.scopes lp d out := by
+            (compS cx lp b (compS cx lp a st).2).2.scopes (compS cx lp a st).2.scopes lp out := by
           have : σ1.pc + (compS cx lp b (compS cx lp a st).2).1.length =
               σ.pc + ((compS cx lp a st).1 ++ (compS cx lp b (compS cx lp a st).2).1).length := by
             rw [hpc1]; simp [Nat.add_assoc]
@@ -736,20 +1277,20 @@ theorem stmtFOK_succ (P : Prog) (C : Code) (cx : Ctx) (fuel : Nat)
         cases out with
         | norm e => exact hpost''
         | ret v => exact hpost''
-        | brk e => exact post_seq hta hd1 (by intro e h; cases h) hpost''
-        | cont e => exact post_seq hta hd1 (by intro e h; cases h) hpost''
+        | brk l e => exact post_seq hta hma.2 (by rw [hma.2]; exact hd1) (by intro e h; cases h) hpost''
+        | cont l e => exact post_seq hta hma.2 (by rw [hma.2]; exact hd1) (by intro e h; cases h) hpost''
       | ret v =>
         simp only at hex
         cases hex
         exact post_ret hpa
-      | brk e =>
+      | brk l e =>
         simp only at hex
         cases hex
-        exact post_seq rfl hd1 (by intro e h; cases h) hpa
-      | cont e =>
+        exact post_seq rfl rfl hd1 (by intro e h; cases h) hpa
+      | cont l e =>
         simp only at hex
         cases hex
-        exact post_seq rfl hd1 (by intro e h; cases h) hpa
+        exact post_seq rfl rfl hd1 (by intro e h; cases h) hpa
     | panic => rw [ha] at hex; simp at hex
     | overflow => rw [ha] at hex; simp at hex
     | stuck => rw [ha] at hex; simp at hex
@@ -822,12 +1363,13 @@ theorem stmtFOK_succ (P : Prog) (C : Code) (cx : Ctx) (fuel : Nat)
     simp only [exec] at hex
     cases hv : evalE fuel P env e <;> rw [hv] at hex <;> simp at hex
   | ret e =>
+    have hdrop := run_dropItems (C := C) (σ := σ) hinv.few hinv.stk
     cases e with
     | none =>
       simp only [exec] at hex
       cases hex
       simp only [compS] at hp ⊢
-      exact ⟨σ, Reach.refl _ _, hp.head, by simp, rfl⟩
+      exact ⟨_, hdrop hp.left, hp.right.head, by simp, rfl⟩
     | some e =>
       simp only [exec] at hex
       simp only [compS] at hp ⊢
@@ -836,33 +1378,34 @@ theorem stmtFOK_succ (P : Prog) (C : Code) (cx : Ctx) (fuel : Nat)
         rw [hv] at hex
         simp only at hex
         cases hex
-        have hr1 := (ihE st.scopes env) e .val st.nl σ v hv hp.left hrel hdep'
+        have hr0 := hdrop hp.left.left
+        have hr1 := (ihE st.scopes env) e .val st.nl
+          { σ with pc := σ.pc + (dropItems (totalSz lp)).length, stack := σ.stack.drop (totalSz lp) } v hv hp.left.right hrel hdep'
         simp only [Post] at hr1
-        exact ⟨_, hr1, hp.right.head, by simp, rfl⟩
+        exact ⟨_, hr0.trans hr1, by simpa [Nat.add_assoc] using hp.right.head, by simp, rfl⟩
       | panic => rw [hv] at hex; simp at hex
       | overflow => rw [hv] at hex; simp at hex
       | stuck => rw [hv] at hex; simp at hex
       | timeout => rw [hv] at hex; simp at hex
   | brk =>
     simp only [Allowed] at hal
-    obtain ⟨b, c, hlp⟩ := hil hal
     simp only [exec] at hex
     cases hex
-    subst hlp
-    simp only [compS] at hp ⊢
-    refine ⟨b, c, rfl, fun bp hb => ?_⟩
-    have := step_jmp (s := σ) hp.head hb
-    exact ⟨_, Reach.step this, rfl, ⟨rfl, rfl, rfl, rfl⟩, varsRel_drop hrel d⟩
+    obtain ⟨e, he⟩ := findBrk_none_ex (lp := lp) (by rw [hinv.sig]; exact hal) 0
+    simp only [compS, he] at hp ⊢
+    refine ⟨0, e, he, fun bp hb => ?_⟩
+    obtain ⟨σ', h1, h2, h3, h4, h5⟩ := run_branch (tail := []) (by simpa using hp) (by omega) (by omega) bp hb
+    exact ⟨σ', h1, h2, h3, by rw [h4, h5]; exact varsRel_drop hrel _⟩
   | cont =>
     simp only [Allowed] at hal
-    obtain ⟨b, c, hlp⟩ := hil hal
     simp only [exec] at hex
     cases hex
-    subst hlp
-    simp only [compS] at hp ⊢
-    refine ⟨b, c, rfl, fun cp hc => ?_⟩
-    have := step_jmp (s := σ) hp.head hc
-    exact ⟨_, Reach.step this, rfl, ⟨rfl, rfl, rfl, rfl⟩, varsRel_drop hrel d⟩
+    obtain ⟨dr, e, he⟩ := findCont_none_ex (lp := lp) (by rw [hinv.sig]; exact hal) 0
+    have hle := findCont_le he
+    simp only [compS, he] at hp ⊢
+    refine ⟨dr, e, he, findCont_none_isFor he, fun bp hb => ?_⟩
+    obtain ⟨σ', h1, h2, h3, h4, h5⟩ := run_branch (tail := []) (by simpa using hp) (by have := hinv.few; omega) (by have := hinv.stk; omega) bp hb
+    exact ⟨σ', h1, h2, h3, by rw [h4, h5]; exact varsRel_drop hrel _⟩
   | inc x =>
     simp only [exec] at hex
     simp only [compS] at hp hcnt ⊢
@@ -941,7 +1484,32 @@ theorem stmtFOK_succ (P : Prog) (C : Code) (cx : Ctx) (fuel : Nat)
         | timeout => rw [hc] at hex; simp at hex
   | varDecl x isBool init =>
     cases init with
-    | some e => simp [Allowed] at hal
+    | some e =>
+      -- `x` does not occur in `e`: same code, same compile-time state and same Go semantics as `x := e`
+      simp only [Allowed] at hal
+      rw [compS_varDecl_define cx lp x isBool e st hal] at hp hcnt ⊢
+      simp only [exec] at hex
+      simp only [compS] at hp hcnt ⊢
+      cases hv : evalE fuel P env e with
+      | ok v =>
+        rw [hv] at hex
+        simp only at hex
+        cases hex
+        have hr1 := (ihE st.scopes env) e .val st.nl σ v hv hp.left hrel hdep'
+        simp only [Post] at hr1
+        have hwf' : Wf { st with nl := (compE cx st.scopes e .val st.nl).2 } := wf_nl hwf _
+        have hcnt' : st.cnt < σ.locals.length := by
+          rw [newLocal_cnt] at hcnt
+          exact hcnt
+        obtain ⟨σ2, hr2, hpc2, hst2, hfr2, hin2, hl2, hrel2⟩ := declare_step (cx := cx)
+          (st := { st with nl := (compE cx st.scopes e .val st.nl).2 }) (env := env) (C := C)
+          (σ := { σ with pc := σ.pc + (compE cx st.scopes e .val st.nl).1.length, stack := v :: σ.stack })
+          (x := x) (v := v) (rest := σ.stack) hrel hwf' hcnt' hp.right rfl
+        exact ⟨σ2, hr1.trans hr2, by rw [hpc2]; simp [Nat.add_assoc], ⟨hst2, hfr2, hin2, hl2⟩, hrel2⟩
+      | panic => rw [hv] at hex; simp at hex
+      | overflow => rw [hv] at hex; simp at hex
+      | stuck => rw [hv] at hex; simp at hex
+      | timeout => rw [hv] at hex; simp at hex
     | none =>
       simp only [exec] at hex
       cases hex
@@ -1013,7 +1581,7 @@ theorem stmtFOK_succ (P : Prog) (C : Code) (cx : Ctx) (fuel : Nat)
     cases hb : exec fuel P env.push body with
     | ok ob =>
       rw [hb] at hex
-      have hpost := ih body lp (d + 1) il st.push env.push σ ob hal hil (Or.inl (by omega)) hb hp hrel' (wf_push hwf)
+      have hpost := ih body lp ls st.push env.push σ ob hal (hinv.to hinv.noLabel rfl) (Or.inl hdS) hb hp hrel' (wf_push hwf)
         (by simpa using hcnt) hdep'
       cases ob with
       | norm e' =>
@@ -1025,14 +1593,14 @@ theorem stmtFOK_succ (P : Prog) (C : Code) (cx : Ctx) (fuel : Nat)
         simp only at hex
         cases hex
         exact post_ret hpost
-      | brk e =>
+      | brk l e =>
         simp only at hex
         cases hex
-        exact post_pop.1 hpost
-      | cont e =>
+        exact (post_pop hdI).1 hpost
+      | cont l e =>
         simp only at hex
         cases hex
-        exact post_pop.2 hpost
+        exact (post_pop hdI).2 hpost
     | panic => rw [hb] at hex; simp at hex
     | overflow => rw [hb] at hex; simp at hex
     | stuck => rw [hb] at hex; simp at hex
@@ -1201,6 +1769,9 @@ theorem stmtFOK_succ (P : Prog) (C : Code) (cx : Ctx) (fuel : Nat)
     have hwf1 : Wf (ifSt1 cx lp c thn st) := by
       have := compS_wf cx (.block thn) lp _ hwfC
       rwa [compS_block] at this
+    have hnl1 : (ifSt1 cx lp c thn st).nextLabel = none :=
+      compS_noLabel cx thn lp (ifStT cx c st) (allowed_labelsOK thn ls hal.1) (Or.inl hinv.noLabel)
+    have hd1S : Deep lp (ifSt1 cx lp c thn st).scopes.length := by rw [ifSt1_scopes]; exact hdS
     cases k with
     | none =>
       rw [compS_ite_none] at hp hcnt ⊢
@@ -1234,8 +1805,8 @@ theorem stmtFOK_succ (P : Prog) (C : Code) (cx : Ctx) (fuel : Nat)
             cases hb : exec fuel P env.push (.block thn) with
             | ok ob =>
               rw [hb] at hex
-              have hpostB := ih (.block thn) lp (d + 1) il { ifSt0 st with nl := (ifCond cx c st).2 } env.push
-                { σ with pc := σ.pc + (ifCond cx c st).1.length + 1 } ob hal.1 hil (Or.inl (by omega)) hb
+              have hpostB := ih (.block thn) lp ls { ifSt0 st with nl := (ifCond cx c st).2 } env.push
+                { σ with pc := σ.pc + (ifCond cx c st).1.length + 1 } ob hal.1 (hinv.to hinv.noLabel rfl) (Or.inl hdS) hb
                 (by rw [compS_block]; exact hpt) hrelP hwfC
                 (by rw [compS_block]; show (compS cx lp thn (ifStT cx c st)).2.pop.cnt ≤ _; simpa [ifSt1] using hcnt) hdep'
               rw [compS_block] at hpostB
@@ -1251,8 +1822,8 @@ theorem stmtFOK_succ (P : Prog) (C : Code) (cx : Ctx) (fuel : Nat)
                   rw [hpc2] <;> rfl
                 simp [this, Nat.add_assoc]; omega
               | ret v => simp only at hex; cases hex; exact post_ret hpostB'
-              | brk e => simp only at hex; cases hex; exact post_pop.1 hpostB'
-              | cont e => simp only at hex; cases hex; exact post_pop.2 hpostB'
+              | brk l e => simp only at hex; cases hex; exact (post_pop hdI).1 hpostB'
+              | cont l e => simp only at hex; cases hex; exact (post_pop hdI).2 hpostB'
             | panic => rw [hb] at hex; simp at hex
             | overflow => rw [hb] at hex; simp at hex
             | stuck => rw [hb] at hex; simp at hex
@@ -1312,8 +1883,8 @@ theorem stmtFOK_succ (P : Prog) (C : Code) (cx : Ctx) (fuel : Nat)
             cases hb : exec fuel P env.push (.block thn) with
             | ok ob =>
               rw [hb] at hex
-              have hpostB := ih (.block thn) lp (d + 1) il { ifSt0 st with nl := (ifCond cx c st).2 } env.push
-                { σ with pc := σ.pc + (ifCond cx c st).1.length + 1 } ob hal.1 hil (Or.inl (by omega)) hb
+              have hpostB := ih (.block thn) lp ls { ifSt0 st with nl := (ifCond cx c st).2 } env.push
+                { σ with pc := σ.pc + (ifCond cx c st).1.length + 1 } ob hal.1 (hinv.to hinv.noLabel rfl) (Or.inl hdS) hb
                 (by rw [compS_block]; exact hpt) hrelP hwfC
                 (by rw [compS_block]; show (compS cx lp thn (ifStT cx c st)).2.pop.cnt ≤ _
                     exact Nat.le_trans hcntE (by simpa using hcnt)) hdep'
@@ -1336,8 +1907,8 @@ theorem stmtFOK_succ (P : Prog) (C : Code) (cx : Ctx) (fuel : Nat)
                   rw [ifSt1_scopes] at hrel2
                   exact varsRel_pop hrel2
               | ret v => simp only at hex; cases hex; exact post_ret hpostB'
-              | brk e => simp only at hex; cases hex; exact post_pop.1 hpostB'
-              | cont e => simp only at hex; cases hex; exact post_pop.2 hpostB'
+              | brk l e => simp only at hex; cases hex; exact (post_pop hdI).1 hpostB'
+              | cont l e => simp only at hex; cases hex; exact (post_pop hdI).2 hpostB'
             | panic => rw [hb] at hex; simp at hex
             | overflow => rw [hb] at hex; simp at hex
             | stuck => rw [hb] at hex; simp at hex
@@ -1351,8 +1922,8 @@ theorem stmtFOK_succ (P : Prog) (C : Code) (cx : Ctx) (fuel : Nat)
             cases hb : exec fuel P env.push (.block els) with
             | ok ob =>
               rw [hb] at hex
-              have hpostB := ih (.block els) lp (d + 1) il (ifSt1 cx lp c thn st) env.push
-                { σ with pc := σ.pc + (ifCond cx c st).1.length + 1 + (compS cx lp thn (ifStT cx c st)).1.length + 1 + 1 } ob hal.2 hil (Or.inl (by omega)) hb
+              have hpostB := ih (.block els) lp ls (ifSt1 cx lp c thn st) env.push
+                { σ with pc := σ.pc + (ifCond cx c st).1.length + 1 + (compS cx lp thn (ifStT cx c st)).1.length + 1 + 1 } ob hal.2 (hinv.to hnl1 rfl) (Or.inl hd1S) hb
                 (by rw [compS_block]; exact hpe) hrelE hwf1
                 (by rw [compS_block]; show (compS cx lp els (ifSt1 cx lp c thn st).push).2.pop.cnt ≤ _; simpa using hcnt) hdep'
               rw [compS_block] at hpostB
@@ -1369,8 +1940,8 @@ theorem stmtFOK_succ (P : Prog) (C : Code) (cx : Ctx) (fuel : Nat)
                 refine ⟨_, hr2.trans h3, ?_, ⟨hs2.stack, hs2.frames, hs2.inited, hs2.len⟩, varsRel_pop hrel2⟩
                 simp [hpc2', Nat.add_assoc]; omega
               | ret v => simp only at hex; cases hex; exact post_ret hpostB'
-              | brk e => simp only at hex; cases hex; exact post_pop.1 hpostB'
-              | cont e => simp only at hex; cases hex; exact post_pop.2 hpostB'
+              | brk l e => simp only at hex; cases hex; exact (post_pop hdI).1 hpostB'
+              | cont l e => simp only at hex; cases hex; exact (post_pop hdI).2 hpostB'
             | panic => rw [hb] at hex; simp at hex
             | overflow => rw [hb] at hex; simp at hex
             | stuck => rw [hb] at hex; simp at hex
@@ -1422,8 +1993,8 @@ theorem stmtFOK_succ (P : Prog) (C : Code) (cx : Ctx) (fuel : Nat)
             cases hb : exec fuel P env.push (.block thn) with
             | ok ob =>
               rw [hb] at hex
-              have hpostB := ih (.block thn) lp (d + 1) il { ifSt0 st with nl := (ifCond cx c st).2 } env.push
-                { σ with pc := σ.pc + (ifCond cx c st).1.length + 1 } ob hal.1 hil (Or.inl (by omega)) hb
+              have hpostB := ih (.block thn) lp ls { ifSt0 st with nl := (ifCond cx c st).2 } env.push
+                { σ with pc := σ.pc + (ifCond cx c st).1.length + 1 } ob hal.1 (hinv.to hinv.noLabel rfl) (Or.inl hdS) hb
                 (by rw [compS_block]; exact hpt) hrelP hwfC
                 (by rw [compS_block]; show (compS cx lp thn (ifStT cx c st)).2.pop.cnt ≤ _
                     exact Nat.le_trans hcntE (by simpa using hcnt)) hdep'
@@ -1446,8 +2017,8 @@ theorem stmtFOK_succ (P : Prog) (C : Code) (cx : Ctx) (fuel : Nat)
                   rw [ifSt1_scopes] at hrel2
                   exact varsRel_pop hrel2
               | ret v => simp only at hex; cases hex; exact post_ret hpostB'
-              | brk e => simp only at hex; cases hex; exact post_pop.1 hpostB'
-              | cont e => simp only at hex; cases hex; exact post_pop.2 hpostB'
+              | brk l e => simp only at hex; cases hex; exact (post_pop hdI).1 hpostB'
+              | cont l e => simp only at hex; cases hex; exact (post_pop hdI).2 hpostB'
             | panic => rw [hb] at hex; simp at hex
             | overflow => rw [hb] at hex; simp at hex
             | stuck => rw [hb] at hex; simp at hex
@@ -1461,8 +2032,8 @@ theorem stmtFOK_succ (P : Prog) (C : Code) (cx : Ctx) (fuel : Nat)
             cases hb : exec fuel P env.push (els) with
             | ok ob =>
               rw [hb] at hex
-              have hpostB := ih (els) lp (d + 1) il (ifSt1 cx lp c thn st) env.push
-                { σ with pc := σ.pc + (ifCond cx c st).1.length + 1 + (compS cx lp thn (ifStT cx c st)).1.length + 1 + 1 } ob hal.2 hil (Or.inl (by omega)) hb
+              have hpostB := ih (els) lp ls (ifSt1 cx lp c thn st) env.push
+                { σ with pc := σ.pc + (ifCond cx c st).1.length + 1 + (compS cx lp thn (ifStT cx c st)).1.length + 1 + 1 } ob hal.2 (hinv.to hnl1 rfl) (Or.inl hd1S) hb
                 (by exact hpe) hrelE hwf1
                 (by simpa using hcnt) hdep'
               skip
@@ -1479,8 +2050,8 @@ theorem stmtFOK_succ (P : Prog) (C : Code) (cx : Ctx) (fuel : Nat)
                 refine ⟨_, hr2.trans h3, ?_, ⟨hs2.stack, hs2.frames, hs2.inited, hs2.len⟩, varsRel_pop hrel2⟩
                 simp [hpc2', Nat.add_assoc]; omega
               | ret v => simp only at hex; cases hex; exact post_ret hpostB'
-              | brk e => simp only at hex; cases hex; exact post_pop.1 hpostB'
-              | cont e => simp only at hex; cases hex; exact post_pop.2 hpostB'
+              | brk l e => simp only at hex; cases hex; exact (post_pop hdI).1 hpostB'
+              | cont l e => simp only at hex; cases hex; exact (post_pop hdI).2 hpostB'
             | panic => rw [hb] at hex; simp at hex
             | overflow => rw [hb] at hex; simp at hex
             | stuck => rw [hb] at hex; simp at hex
@@ -1494,612 +2065,71 @@ theorem stmtFOK_succ (P : Prog) (C : Code) (cx : Ctx) (fuel : Nat)
   | loop init cond post body =>
     simp only [Allowed] at hal
     simp only [exec] at hex
-    have hp' := hp
-    have hcnt' := hcnt
-    rw [compS_loop] at hp' hcnt' ⊢
-    simp only at hp' hcnt' ⊢
-    -- counters along the loop
-    have hne1 : (forSt1 cx lp init st).scopes ≠ [] := by
-      have := (compS_mono cx init lp (forSt0 st) (by simp)).2
-      exact ne_nil_of_length this (by simp)
-    have hc1 : (forSt1 cx lp init st).cnt ≤ (forSt3 cx lp init cond body st).cnt := by
-      have := (compS_mono cx body (some (st.nl + 1, st.nl + 2)) (forStB cx lp init cond st) (by simp)).1
-      simpa [forSt3] using this
-    have hc3 : (forSt3 cx lp init cond body st).cnt ≤ (compS cx lp post (forSt3 cx lp init cond body st)).2.cnt :=
-      (compS_mono cx post lp _ (by rw [forSt3_scopes]; exact hne1)).1
-    have hfin : (compS cx lp post (forSt3 cx lp init cond body st)).2.pop.scopes = st.scopes := by
-      simp only [pop_scopes, (noDecl_state hal.2.1 _).1, forSt3_scopes, forSt1_tail]
-    have hpi : Placed C σ.pc (compS cx lp init (forSt0 st)).1 := hp'.left.left.left.left.left.left
-    cases hi : exec fuel P env.push init with
-    | ok oi =>
-      rw [hi] at hex
-      have hposti := ih init lp (d + 1) false (forSt0 st) env.push σ oi hal.1 (by intro h; cases h) (Or.inl (by omega)) hi hpi
-        (varsRel_push hrel) (wf_push (wf_nl hwf _)) (by
-          have : (compS cx lp init (forSt0 st)).2.cnt = (forSt1 cx lp init st).cnt := rfl
-          simp only [pop_cnt] at hcnt'
-          omega) hdep'
-      cases oi with
-      | norm env1 =>
-        simp only at hex
-        obtain ⟨σ1, hr1, hpc1, hs1, hrel1⟩ := hposti
-        cases hit : iter fuel P env1 cond post body with
-        | ok oo =>
-          rw [hit] at hex
-          have hpostI := ihI init cond post body lp st env1 σ1 σ.pc oo hal.2.2 hal.2.1 hit hp hpc1 hrel1 hwf
-            (by rw [hs1.len]; exact hcnt) (by rw [hs1.frames]; exact hdep')
-          cases oo with
-          | norm e' =>
-            simp only at hex
-            cases hex
-            obtain ⟨σ2, hr2, hpc2, hs2, hrel2⟩ := hpostI
-            refine ⟨σ2, hr1.trans hr2, ?_, hs1.trans hs2, ?_⟩
-            · rw [hpc2, compS_loop]
-            · rw [hfin]
-              have := varsRel_pop hrel2
-              rwa [forSt1_tail] at this
-          | ret v =>
-            simp only at hex
-            cases hex
-            obtain ⟨σ2, hr2, h2, h3, h4⟩ := hpostI
-            exact ⟨σ2, hr1.trans hr2, h2, by rw [h3, hs1.stack], by rw [h4, hs1.frames]⟩
-          | brk e => exact hpostI.elim
-          | cont e => exact hpostI.elim
-        | panic => rw [hit] at hex; simp at hex
-        | overflow => rw [hit] at hex; simp at hex
-        | stuck => rw [hit] at hex; simp at hex
-        | timeout => rw [hit] at hex; simp at hex
-      | ret v => simp at hex
-      | brk e => simp at hex
-      | cont e => simp at hex
-    | panic => rw [hi] at hex; simp at hex
-    | overflow => rw [hi] at hex; simp at hex
-    | stuck => rw [hi] at hex; simp at hex
-    | timeout => rw [hi] at hex; simp at hex
+    have hnl := hinv.noLabel
+    exact ihL init cond post body lp ls st env σ out hal.1 hal.2.1 (by rw [hnl]; exact hal.2.2) hinv.sig hinv.stk hinv.few hdI
+      (by rw [hnl]; exact hex) hp hrel hwf hcnt hdep'
+  | labeled l s =>
+    cases s with
+    | loop init cond post body =>
+      have hal' : Allowed ls init ∧ NoDecl post ∧ Allowed ((some l, true) :: ls) body := by simpa only [Allowed] using hal
+      simp only [exec] at hex
+      rw [compS_labeled] at hp hcnt ⊢
+      exact ihL init cond post body lp ls { st with nextLabel := some l } env σ out hal'.1 hal'.2.1 hal'.2.2 hinv.sig hinv.stk hinv.few hdI
+        hex hp hrel (wf_mono hwf rfl (Nat.le_refl _)) hcnt hdep'
+    | switchS tag ti cl =>
+      have hal' : swCount ls < 3 ∧ AllowedCl ((some l, false) :: ls) cl := by simpa only [Allowed] using hal
+      simp only [exec] at hex
+      rw [compS_labeled] at hp hcnt ⊢
+      exact ihSw tag ti cl lp ls { st with nextLabel := some l } env σ out hal'.1 hal'.2 hinv.sig hinv.stk hdI
+        hex hp hrel (wf_mono hwf rfl (Nat.le_refl _)) hcnt hdep'
+    | skip => exact hal.elim
+    | seq a b => exact hal.elim
+    | define x e => exact hal.elim
+    | assign x e => exact hal.elim
+    | opAssign x op e => exact hal.elim
+    | inc x => exact hal.elim
+    | dec x => exact hal.elim
+    | varDecl x b i => exact hal.elim
+    | exprStmt e => exact hal.elim
+    | discard e => exact hal.elim
+    | panicS e => exact hal.elim
+    | ite c t k e => exact hal.elim
+    | ret e => exact hal.elim
+    | brk => exact hal.elim
+    | cont => exact hal.elim
+    | block b => exact hal.elim
+    | labeled l' s' => exact hal.elim
+    | brkL l' => exact hal.elim
+    | contL l' => exact hal.elim
+    | caseS e1 e2 b ft r => exact hal.elim
+    | defaultS b => exact hal.elim
+  | brkL l =>
+    simp only [Allowed] at hal
+    simp only [exec] at hex
+    cases hex
+    obtain ⟨dr, e, he⟩ := findBrk_some_ex (lp := lp) (by rw [hinv.sig]; exact hal) 0
+    have hle := findBrk_le he
+    simp only [compS, he] at hp ⊢
+    refine ⟨dr, e, he, fun bp hb => ?_⟩
+    obtain ⟨σ', h1, h2, h3, h4, h5⟩ := run_branch hp (by have := hinv.few; omega) (by have := hinv.stk; omega) bp hb
+    exact ⟨σ', h1, h2, h3, by rw [h4, h5]; exact varsRel_drop hrel _⟩
+  | contL l =>
+    simp only [Allowed] at hal
+    simp only [exec] at hex
+    cases hex
+    obtain ⟨dr, e, he⟩ := findCont_some_ex (lp := lp) (by rw [hinv.sig]; exact hal) 0
+    have hle := findCont_le he
+    simp only [compS, he] at hp ⊢
+    refine ⟨dr, e, he, findCont_some_isFor (by rw [hinv.sig]; exact hal) he, fun bp hb => ?_⟩
+    obtain ⟨σ', h1, h2, h3, h4, h5⟩ := run_branch hp (by have := hinv.few; omega) (by have := hinv.stk; omega) bp hb
+    exact ⟨σ', h1, h2, h3, by rw [h4, h5]; exact varsRel_drop hrel _⟩
+  | switchS tag ti cl =>
+    simp only [Allowed] at hal
+    simp only [exec] at hex
+    have hnl := hinv.noLabel
+    exact ihSw tag ti cl lp ls st env σ out hal.1 (by rw [hnl]; exact hal.2) hinv.sig hinv.stk hdI
+      (by rw [hnl]; exact hex) hp hrel hwf hcnt hdep'
+  | caseS e1 e2 body ft rest => simp [exec] at hex
+  | defaultS body => simp [exec] at hex
 
 end NeoModel.CompileProofs
-
-namespace NeoModel.CompileProofs
-open NeoModel.MiniVm NeoModel.MiniVm.Asm NeoModel.MiniGo NeoModel.Compile
-
-theorem iterOK_zero (P : Prog) (C : Code) (cx : Ctx) : IterOK P C cx 0 := by
-  intro init cond post body lp st env σ pc0 out _ _ hit
-  simp [iter] at hit
-
-set_option maxHeartbeats 1000000 in
-theorem iterOK_succ (P : Prog) (C : Code) (cx : Ctx) (fuel : Nat)
-    (hn : (labelsOf C).Nodup)
-    (ihE : ∀ sc env, ExprFOK P C cx sc env fuel) (ih : StmtFOK P C cx fuel) (ihI : IterOK P C cx fuel) :
-    IterOK P C cx (fuel + 1) := by
-  intro init cond post body lp st env σ pc0 out halb hnd hit hp hpc hrel hwf hcnt hdep
-  have hdep' : σ.frames.length + fuel < 1024 := by omega
-  have hp' := hp
-  have hcnt' := hcnt
-  rw [compS_loop] at hp' hcnt'
-  simp only at hp' hcnt'
-  -- abbreviations
-  generalize hci : (compS cx lp init (forSt0 st)).1 = ci at hp' hpc
-  generalize hcc : (forCond cx lp init cond st).1 = cc at hp'
-  generalize hcb : (compS cx (some (st.nl + 1, st.nl + 2)) body (forStB cx lp init cond st)).1 = cb at hp'
-  generalize hcp : (compS cx lp post (forSt3 cx lp init cond body st)).1 = cp at hp'
-  have hlenT : (compS cx lp (.loop init cond post body) st).1.length = ci.length + 1 + cc.length + cb.length + 1 + cp.length + 2 := by
-    rw [compS_loop]; simp [hci, hcc, hcb, hcp]; omega
-  -- placements
-  have hP0 : Placed C (pc0 + ci.length) [Item.lbl st.nl] := hp'.left.left.left.left.left.right
-  have hPc : Placed C (pc0 + ci.length + 1) cc := hp'.left.left.left.left.right.cast (by simp [Nat.add_assoc] <;> omega)
-  have hPb : Placed C (pc0 + ci.length + 1 + cc.length) cb := hp'.left.left.left.right.cast (by simp [Nat.add_assoc] <;> omega)
-  have hPp : Placed C (pc0 + ci.length + 1 + cc.length + cb.length) [Item.lbl (st.nl + 2)] :=
-    hp'.left.left.right.cast (by simp [Nat.add_assoc] <;> omega)
-  have hPq : Placed C (pc0 + ci.length + 1 + cc.length + cb.length + 1) cp := hp'.left.right.cast (by simp [Nat.add_assoc] <;> omega)
-  have hPj : Placed C (pc0 + ci.length + 1 + cc.length + cb.length + 1 + cp.length) [Item.ins (.jmp st.nl), Item.lbl (st.nl + 1)] :=
-    hp'.right.cast (by simp [Nat.add_assoc] <;> omega)
-  have hLstart : findLabel C st.nl = some (pc0 + ci.length) := hP0.label hn
-  have hLpost : findLabel C (st.nl + 2) = some (pc0 + ci.length + 1 + cc.length + cb.length) := hPp.label hn
-  have hLend : findLabel C (st.nl + 1) = some (pc0 + ci.length + 1 + cc.length + cb.length + 1 + cp.length + 1) := hPj.tail.label hn
-  -- compile-time states
-  have hwf1 : Wf (forSt1 cx lp init st) := compS_wf cx init lp _ (wf_push (wf_nl hwf _))
-  have hne1 : (forSt1 cx lp init st).scopes ≠ [] := hwf1.nonempty
-  have hc1 : (forSt1 cx lp init st).cnt ≤ (forSt3 cx lp init cond body st).cnt := by
-    have := (compS_mono cx body (some (st.nl + 1, st.nl + 2)) (forStB cx lp init cond st) (by simp)).1
-    simpa [forSt3] using this
-  have hc3 : (forSt3 cx lp init cond body st).cnt ≤ σ.locals.length := by
-    have := (compS_mono cx post lp (forSt3 cx lp init cond body st) (by rw [forSt3_scopes]; exact hne1)).1
-    simp only [pop_cnt] at hcnt'
-    omega
-  have hwf3 : Wf (forSt3 cx lp init cond body st) := by
-    have := compS_wf cx (.block body) (some (st.nl + 1, st.nl + 2)) { forSt1 cx lp init st with nl := (forCond cx lp init cond st).2 } (wf_nl hwf1 _)
-    rwa [compS_block] at this
-  -- leaving the loop through the end mark
-  have hexit : ∀ τ : State, τ.pc = pc0 + ci.length + 1 + cc.length + cb.length + 1 + cp.length + 1 →
-      Reach C τ { τ with pc := pc0 + (compS cx lp (.loop init cond post body) st).1.length } := by
-    intro τ hτ
-    have := skip_lbl (σ := τ) (hτ ▸ hPj.tail)
-    refine this.trans ?_
-    have : τ.pc + 1 = pc0 + (compS cx lp (.loop init cond post body) st).1.length := by rw [hτ, hlenT]; omega
-    rw [this]; exact Reach.refl _ _
-  -- the body and what follows it, from the state where the body starts
-  have hgo : ∀ τ : State, τ.pc = pc0 + ci.length + 1 + cc.length → Same σ τ → VarsRel cx (forSt1 cx lp init st).scopes env τ.locals τ.args →
-      (match exec fuel P env (.block body) with
-        | .ok (.norm e1) | .ok (.cont e1) => match exec fuel P e1 post with
-          | .ok (.norm e2) => iter fuel P e2 cond post body
-          | .ok _ => .stuck
-          | r => r
-        | .ok (.brk e1) => .ok (.norm e1)
-        | r => r) = .ok out →
-      IterPost cx C τ (pc0 + (compS cx lp (.loop init cond post body) st).1.length) (forSt1 cx lp init st).scopes out := by
-    intro τ hτ hsτ hrelτ hgoeq
-    have hdτ : τ.frames.length + fuel < 1024 := by rw [hsτ.frames]; exact hdep'
-    cases hb : exec fuel P env (.block body) with
-    | ok ob =>
-      rw [hb] at hgoeq
-      have hpostB := ih (.block body) (some (st.nl + 1, st.nl + 2)) 0 true
-        { forSt1 cx lp init st with nl := (forCond cx lp init cond st).2 } env τ ob
-        (by simpa [Allowed] using halb) (fun _ => ⟨_, _, rfl⟩) (Or.inr ⟨body, rfl⟩) hb
-        (by rw [compS_block, hτ]; show Placed C _ (compS cx (some (st.nl + 1, st.nl + 2)) body (forStB cx lp init cond st)).1
-            rw [hcb]; exact hPb)
-        hrelτ (wf_nl hwf1 _)
-        (by rw [compS_block, hsτ.len]; exact hc3) hdτ
-      rw [compS_block] at hpostB
-      have hbl : (compS cx (some (st.nl + 1, st.nl + 2)) body ({ forSt1 cx lp init st with nl := (forCond cx lp init cond st).2 } : St).push).1 = cb := hcb
-      -- after the body (normal completion or continue): the post statement, the jump back, the remaining iterations
-      have hafter : ∀ (e1 : Env) (σ2 : State), Reach C τ σ2 → σ2.pc = pc0 + ci.length + 1 + cc.length + cb.length → Same τ σ2 →
-          VarsRel cx (forSt1 cx lp init st).scopes e1 σ2.locals σ2.args →
-          (match exec fuel P e1 post with
-            | .ok (.norm e2) => iter fuel P e2 cond post body
-            | .ok _ => .stuck
-            | r => r) = .ok out →
-          IterPost cx C τ (pc0 + (compS cx lp (.loop init cond post body) st).1.length) (forSt1 cx lp init st).scopes out := by
-        intro e1 σ2 hr2 hpc2 hs2 hrel2 heq
-        have hl := skip_lbl (σ := σ2) (hpc2 ▸ hPp)
-        cases hpo : exec fuel P e1 post with
-        | ok op =>
-          rw [hpo] at heq
-          have hrel2' : VarsRel cx (forSt3 cx lp init cond body st).scopes e1 σ2.locals σ2.args := by
-            rw [forSt3_scopes]; exact hrel2
-          have hpostP := ih post lp 1 false (forSt3 cx lp init cond body st) e1 { σ2 with pc := σ2.pc + 1 } op
-            (noDecl_allowed hnd false) (by intro h; cases h) (Or.inl (Nat.le_refl 1)) hpo
-            (by rw [hcp]; exact hPq.cast (by simp [hpc2])) hrel2' hwf3
-            (by
-              have := (noDecl_state (cx := cx) (lp := lp) hnd (forSt3 cx lp init cond body st)).2
-              rw [this]; show _ ≤ σ2.locals.length; rw [hs2.len, hsτ.len]; exact hc3)
-            (by show σ2.frames.length + fuel < 1024; rw [hs2.frames]; exact hdτ)
-          cases op with
-          | norm e2 =>
-            simp only at heq
-            obtain ⟨σ3, hr3, hpc3, hs3, hrel3⟩ := hpostP
-            rw [(noDecl_state hnd _).1, forSt3_scopes] at hrel3
-            have hpc3' : σ3.pc = pc0 + ci.length + 1 + cc.length + cb.length + 1 + cp.length := by
-              rw [hpc3, hcp]; simp [hpc2]
-            have hj := step_jmp (s := σ3) (hpc3' ▸ hPj.head) hLstart
-            have hs23 : Same σ2 σ3 := ⟨hs3.stack, hs3.frames, hs3.inited, hs3.len⟩
-            have hsσ4 : Same σ { σ3 with pc := pc0 + ci.length } :=
-              ⟨by show σ3.stack = σ.stack; rw [hs23.stack, hs2.stack, hsτ.stack],
-               by show σ3.frames = σ.frames; rw [hs23.frames, hs2.frames, hsτ.frames],
-               by show σ3.inited = σ.inited; rw [hs23.inited, hs2.inited, hsτ.inited],
-               by show σ3.locals.length = σ.locals.length; rw [hs23.len, hs2.len, hsτ.len]⟩
-            have hrest := ihI init cond post body lp st e2 { σ3 with pc := pc0 + ci.length } pc0 out halb hnd heq hp
-              (by simp [hci]) hrel3 hwf (by show _ ≤ σ3.locals.length; rw [hsσ4.len]; exact hcnt)
-              (by show σ3.frames.length + fuel < 1024; rw [hsσ4.frames]; exact hdep')
-            have hpre : Reach C τ { σ3 with pc := pc0 + ci.length } := hr2.trans (hl.trans (hr3.trans (Reach.step hj)))
-            have hsτ4 : Same τ { σ3 with pc := pc0 + ci.length } :=
-              ⟨by show σ3.stack = τ.stack; rw [hs23.stack, hs2.stack],
-               by show σ3.frames = τ.frames; rw [hs23.frames, hs2.frames],
-               by show σ3.inited = τ.inited; rw [hs23.inited, hs2.inited],
-               by show σ3.locals.length = τ.locals.length; rw [hs23.len, hs2.len]⟩
-            cases out with
-            | norm e' =>
-              obtain ⟨σ5, hr5, hpc5, hs5, hrel5⟩ := hrest
-              exact ⟨σ5, hpre.trans hr5, hpc5, hsτ4.trans hs5, hrel5⟩
-            | ret v =>
-              obtain ⟨σ5, hr5, h5, h6, h7⟩ := hrest
-              exact ⟨σ5, hpre.trans hr5, h5, by rw [h6]; show _ ++ σ3.stack = _; rw [hs23.stack, hs2.stack],
-                by rw [h7]; show σ3.frames = _; rw [hs23.frames, hs2.frames]⟩
-            | brk e => exact hrest
-            | cont e => exact hrest
-          | ret v => simp at heq
-          | brk e => simp at heq
-          | cont e => simp at heq
-        | panic => rw [hpo] at heq; simp at heq
-        | overflow => rw [hpo] at heq; simp at heq
-        | stuck => rw [hpo] at heq; simp at heq
-        | timeout => rw [hpo] at heq; simp at heq
-      cases ob with
-      | norm e1 =>
-        simp only at hgoeq
-        obtain ⟨σ2, hr2, hpc2, hs2, hrel2⟩ := hpostB
-        rw [hbl] at hpc2
-        change VarsRel cx (forSt3 cx lp init cond body st).scopes e1 _ _ at hrel2
-        rw [forSt3_scopes] at hrel2
-        exact hafter e1 σ2 hr2 (by rw [hpc2, hτ]) hs2 hrel2 hgoeq
-      | cont e1 =>
-        simp only at hgoeq
-        obtain ⟨b, c, hbc, hh⟩ := hpostB
-        cases hbc
-        obtain ⟨σ2, hr2, hpc2, hs2, hrel2⟩ := hh _ hLpost
-        have hrel2' : VarsRel cx (forSt1 cx lp init st).scopes e1 σ2.locals σ2.args := by
-          simpa [dropEnv] using hrel2
-        exact hafter e1 σ2 hr2 hpc2 hs2 hrel2' hgoeq
-      | brk e1 =>
-        simp only at hgoeq
-        cases hgoeq
-        obtain ⟨b, c, hbc, hh⟩ := hpostB
-        cases hbc
-        obtain ⟨σ2, hr2, hpc2, hs2, hrel2⟩ := hh _ hLend
-        have hrel2' : VarsRel cx (forSt1 cx lp init st).scopes e1 σ2.locals σ2.args := by
-          simpa [dropEnv] using hrel2
-        exact ⟨_, hr2.trans (hexit σ2 hpc2), rfl, ⟨hs2.stack, hs2.frames, hs2.inited, hs2.len⟩, hrel2'⟩
-      | ret v =>
-        simp only at hgoeq
-        cases hgoeq
-        exact hpostB
-    | panic => rw [hb] at hgoeq; simp at hgoeq
-    | overflow => rw [hb] at hgoeq; simp at hgoeq
-    | stuck => rw [hb] at hgoeq; simp at hgoeq
-    | timeout => rw [hb] at hgoeq; simp at hgoeq
-  -- the loop head mark, then the condition
-  have h0 := skip_lbl (σ := σ) (hpc ▸ hP0)
-  have hpost_pre : ∀ {τ : State} {o : SOut}, Reach C σ τ → Same σ τ →
-      IterPost cx C τ (pc0 + (compS cx lp (.loop init cond post body) st).1.length) (forSt1 cx lp init st).scopes o →
-      IterPost cx C σ (pc0 + (compS cx lp (.loop init cond post body) st).1.length) (forSt1 cx lp init st).scopes o := by
-    intro τ o hr hs h
-    cases o with
-    | norm e =>
-      obtain ⟨σ', h1, h2, h3, h4⟩ := h
-      exact ⟨σ', hr.trans h1, h2, hs.trans h3, h4⟩
-    | ret v =>
-      obtain ⟨σ', h1, h2, h3, h4⟩ := h
-      exact ⟨σ', hr.trans h1, h2, by rw [h3, hs.stack], by rw [h4, hs.frames]⟩
-    | brk e => exact h
-    | cont e => exact h
-  simp only [iter] at hit
-  cases cond with
-  | none =>
-    simp only at hit
-    have hccn : cc = [] := by rw [← hcc]; rfl
-    subst hccn
-    have hτ : ({ σ with pc := σ.pc + 1 } : State).pc = pc0 + ci.length + 1 + ([] : Code).length := by simp [hpc]
-    exact hpost_pre h0 ⟨rfl, rfl, rfl, rfl⟩ (hgo { σ with pc := σ.pc + 1 } hτ ⟨rfl, rfl, rfl, rfl⟩ hrel hit)
-  | some c =>
-    simp only at hit
-    have hccs : cc = (compE cx (forSt1 cx lp init st).scopes c .val (forSt1 cx lp init st).nl).1 ++ [Item.ins (.jmpIfNot (st.nl + 1))] := by
-      rw [← hcc]; rfl
-    cases hcv : evalE fuel P env c with
-    | ok cv =>
-      rw [hcv] at hit
-      have hPc' : Placed C (pc0 + ci.length + 1) ((compE cx (forSt1 cx lp init st).scopes c .val (forSt1 cx lp init st).nl).1 ++ [Item.ins (.jmpIfNot (st.nl + 1))]) := by
-        rw [← hccs]; exact hPc
-      have hre := (ihE (forSt1 cx lp init st).scopes env) c .val (forSt1 cx lp init st).nl { σ with pc := σ.pc + 1 } cv hcv
-        (by show Placed C (σ.pc + 1) _; rw [hpc]; exact hPc'.left) hrel hdep'
-      simp only [Post] at hre
-      have hjf : C[σ.pc + 1 + (compE cx (forSt1 cx lp init st).scopes c .val (forSt1 cx lp init st).nl).1.length]? =
-          some (Item.ins (.jmpIfNot (st.nl + 1))) := by
-        rw [hpc]; exact hPc'.right.head
-      generalize hlc : (compE cx (forSt1 cx lp init st).scopes c .val (forSt1 cx lp init st).nl).1.length = lc at hre hjf
-      have hj := step_jmpIfNot (s := { σ with pc := σ.pc + 1 + lc, stack := cv :: σ.stack }) (v := cv) (r := σ.stack) hjf hLend rfl
-      cases cv with
-      | bool b =>
-        cases b with
-        | true =>
-          simp only at hit
-          simp only [Val.toBool, if_true] at hj
-          have hτ : ({ σ with pc := σ.pc + 1 + lc + 1 } : State).pc
-              = pc0 + ci.length + 1 + cc.length := by rw [hccs]; simp [hpc, hlc, Nat.add_assoc]
-          refine hpost_pre (h0.trans (hre.trans (Reach.step hj))) ⟨rfl, rfl, rfl, rfl⟩ ?_
-          exact hgo _ hτ ⟨rfl, rfl, rfl, rfl⟩ hrel hit
-        | false =>
-          simp only at hit
-          cases hit
-          simp only [Val.toBool, Bool.false_eq_true, if_false] at hj
-          have hx := hexit { σ with pc := pc0 + ci.length + 1 + cc.length + cb.length + 1 + cp.length + 1 } rfl
-          exact ⟨_, h0.trans (hre.trans ((Reach.step hj).trans hx)), rfl, ⟨rfl, rfl, rfl, rfl⟩, hrel⟩
-      | int n => simp at hit
-      | null => simp at hit
-    | panic => rw [hcv] at hit; simp at hit
-    | overflow => rw [hcv] at hit; simp at hit
-    | stuck => rw [hcv] at hit; simp at hit
-    | timeout => rw [hcv] at hit; simp at hit
-
-end NeoModel.CompileProofs
-
-namespace NeoModel.CompileProofs
-open NeoModel.MiniVm NeoModel.MiniVm.Asm NeoModel.MiniGo NeoModel.Compile
-
-/-- INITSLOT (or the NOP of a removed INITSLOT 0,0) at the entry of a called function. -/
-theorem initSlot_stepF {C : Code} {σ : State} {N np : Nat} {vs rest : List Val} (hnp : np = vs.length)
-    (hf : C[σ.pc]? = some (initSlotItem N np)) (hs : σ.stack = vs ++ rest) (hl : σ.locals = []) (ha : σ.args = [])
-    (hi : σ.inited = false) :
-    ∃ b, Reach C σ { σ with pc := σ.pc + 1, stack := rest, locals := List.replicate N .null, args := vs, inited := b } := by
-  by_cases hz : (N == 0 && np == 0) = true
-  · have hN : N = 0 := by simp at hz; exact hz.1
-    have hA : vs = [] := by
-      have : np = 0 := by simp at hz; exact hz.2
-      rw [this] at hnp
-      exact List.length_eq_zero_iff.mp hnp.symm
-    simp only [initSlotItem, hz, if_true] at hf
-    subst hN; subst hA
-    refine ⟨false, Reach.step ?_⟩
-    have h := step_data (C := C) (s := σ) (op := .nop) (stk := σ.stack) (loc := σ.locals) (ar := σ.args) hf rfl (by simp [stepData])
-    rw [h]
-    congr 1
-    cases σ
-    simp_all
-  · have hz' : (N == 0 && np == 0) = false := by simpa using hz
-    simp only [initSlotItem, hz', Bool.false_eq_true, if_false] at hf
-    refine ⟨true, Reach.step ?_⟩
-    simp [Asm.step, hf, stepOp, hnp, hs, hi]
-    intro h0 hv
-    subst h0; subst hv
-    simp at hnp
-    subst hnp
-    simp at hz
-
-/-- a statement list whose last statement is a return (possibly inside blocks) does not complete normally. -/
-theorem lastIsRet_aux : ∀ (s : Stmt),
-    (lastIsRet s = true → ∀ (fuel : Nat) (P : Prog) (env e : Env), exec fuel P env s ≠ .ok (.norm e)) ∧
-    (∀ b, s = .block b → lastIsRet b = true → ∀ (fuel : Nat) (P : Prog) (env e : Env), exec fuel P env s ≠ .ok (.norm e)) := by
-  intro s
-  induction s with
-  | seq a b iha ihb =>
-    refine ⟨?_, fun b' h => by cases h⟩
-    intro hl fuel P env e
-    cases fuel with
-    | zero => simp [exec]
-    | succ n =>
-      simp only [exec]
-      cases hb : b with
-      | skip =>
-        subst hb
-        cases ha : exec n P env a with
-        | ok oa =>
-          cases oa with
-          | norm e1 =>
-            exfalso
-            cases a with
-            | block bb =>
-              exact iha.2 bb rfl (by simpa [lastIsRet] using hl) n P env e1 ha
-            | ret r =>
-              cases n with
-              | zero => simp [exec] at ha
-              | succ m =>
-                cases r with
-                | none => simp [exec] at ha
-                | some ex =>
-                  simp only [exec] at ha
-                  cases hv : evalE m P env ex <;> rw [hv] at ha <;> simp at ha
-            | _ => simp [lastIsRet] at hl
-          | ret v => simp
-          | brk e1 => simp
-          | cont e1 => simp
-        | panic => simp
-        | overflow => simp
-        | stuck => simp
-        | timeout => simp
-      | _ =>
-        rw [← hb]
-        have hlb : lastIsRet b = true := by
-          rw [hb] at hl ⊢
-          simpa [lastIsRet] using hl
-        cases ha : exec n P env a with
-        | ok oa =>
-          cases oa with
-          | norm e1 => simp only; exact ihb.1 hlb n P e1 e
-          | ret v => simp
-          | brk e1 => simp
-          | cont e1 => simp
-        | panic => simp
-        | overflow => simp
-        | stuck => simp
-        | timeout => simp
-  | block b ih =>
-    refine ⟨fun hl => by simp [lastIsRet] at hl, ?_⟩
-    intro b' hb' hl fuel P env e
-    cases hb'
-    cases fuel with
-    | zero => simp [exec]
-    | succ n =>
-      simp only [exec]
-      cases hx : exec n P env.push b with
-      | ok ob =>
-        cases ob with
-        | norm e1 => exact absurd hx (ih.1 hl n P env.push e1)
-        | ret v => simp
-        | brk e1 => simp
-        | cont e1 => simp
-      | panic => simp
-      | overflow => simp
-      | stuck => simp
-      | timeout => simp
-  | _ => exact ⟨fun hl => by simp [lastIsRet] at hl, fun b h => by cases h⟩
-
-end NeoModel.CompileProofs
-
-namespace NeoModel.CompileProofs
-open NeoModel.MiniVm NeoModel.MiniVm.Asm NeoModel.MiniGo NeoModel.Compile
-
-/-- what a CALL of a function achieves, by the outcome of its body. -/
-def CallPost (C : Code) (σ : State) (rest : List Val) : SOut → Prop
-  | .ret v => Reach C σ { σ with pc := σ.pc + 1, stack := v.toList ++ rest }
-  | .norm _ => Reach C σ { σ with pc := σ.pc + 1, stack := rest }
-  | .brk _ => False
-  | .cont _ => False
-
-theorem fnLabel_of_find {P : Prog} {f : String} {d : FuncDecl} (h : P.find f = some d) :
-    ∃ i, P[i]? = some d ∧ fnLabel P f = i ∧ fnRes P f = (if d.hasResult then 1 else 0) := by
-  obtain ⟨i, hi, hl⟩ := find_table h
-  exact ⟨i, hi, by simp [fnLabel, hl], by simp [fnRes, hl]⟩
-
-/-- CALL … RET: the callee's frame is pushed, its body runs under the statement theorem, RET restores the caller. -/
-theorem call_run {P : Prog} {C : Code} {fuel : Nat} (hpc : ProgCode C P)
-    (ihS : ∀ cx : Ctx, cx.funcs = funcTable P → StmtFOK P C cx fuel) (hall : ∀ d ∈ P, Allowed false d.body)
-    {f : String} {d : FuncDecl} {vs rest : List Val} {σ : State} {out : SOut}
-    (hfind : P.find f = some d) (hlen : d.params.length = vs.length)
-    (hex : exec fuel P { frames := [[]], args := d.params.zip vs } (.block d.body) = .ok out)
-    (hs : σ.stack = vs ++ rest) (hf : C[σ.pc]? = some (.ins (.call (fnLabel P f))))
-    (hdep : σ.frames.length + (fuel + 1) < 1024) : CallPost C σ rest out := by
-  obtain ⟨i, hi, hlab, _⟩ := fnLabel_of_find hfind
-  obtain ⟨pc0, nl, hp⟩ := hpc.funcs i d hi
-  have hmem : d ∈ P := List.mem_of_getElem? hi
-  have hcode : (compFunc (funcTable P) d i nl).1 =
-      [Item.lbl i, initSlotItem (compS { funcs := funcTable P, args := d.params } none (.block d.body) { nl := nl, cnt := 0, scopes := [[]] }).2.cnt d.params.length] ++
-        (compS { funcs := funcTable P, args := d.params } none (.block d.body) { nl := nl, cnt := 0, scopes := [[]] }).1 ++
-        (if lastIsRet d.body then [] else [Item.ins .ret]) := rfl
-  rw [hcode] at hp
-  generalize hN : (compS { funcs := funcTable P, args := d.params } none (.block d.body) { nl := nl, cnt := 0, scopes := [[]] }).2.cnt = N at hp
-  have hlbl : findLabel C i = some pc0 := hp.left.left.label hpc.nodup
-  rw [hlab] at hf
-  have hcall := step_call (s := σ) hf hlbl (by omega)
-  -- the callee's frame
-  have h1 := skip_lbl (σ := State.mk pc0 σ.stack [] [] (MiniVm.Frame.mk (σ.pc + 1) σ.locals σ.args σ.inited :: σ.frames) false) hp.left.left
-  obtain ⟨b, h2⟩ := initSlot_stepF (C := C)
-    (σ := State.mk (pc0 + 1) σ.stack [] [] (MiniVm.Frame.mk (σ.pc + 1) σ.locals σ.args σ.inited :: σ.frames) false)
-    (N := N) (vs := vs) (rest := rest) hlen hp.left.left.tail.head hs rfl rfl rfl
-  have hrel : VarsRel { funcs := funcTable P, args := d.params } [[]] { frames := [[]], args := d.params.zip vs } (List.replicate N .null) vs :=
-    ⟨by simp [FramesRel, FrameRel], zip_fst _ _ hlen, zip_snd _ _ hlen⟩
-  have hwf : Wf { nl := nl, cnt := 0, scopes := [[]] } := ⟨by simp [slotsOf], by simp [slotsOf], by simp⟩
-  have hbody := ihS { funcs := funcTable P, args := d.params } rfl (.block d.body) none 0 false { nl := nl, cnt := 0, scopes := [[]] } _
-    (State.mk (pc0 + 1 + 1) rest (List.replicate N .null) vs (MiniVm.Frame.mk (σ.pc + 1) σ.locals σ.args σ.inited :: σ.frames) b) out
-    (by simpa [Allowed] using hall d hmem) (by intro h; cases h) (Or.inr ⟨_, rfl⟩) hex
-    (hp.left.right.cast (by simp)) hrel hwf (by simp [hN]) (by simp; omega)
-  have hpre := (Reach.step hcall).trans (h1.trans h2)
-  cases out with
-  | ret v =>
-    obtain ⟨σ3, hr3, hret, hst3, hfr3⟩ := hbody
-    have hr := step_ret (s := σ3) hret hfr3
-    refine (hpre.trans (hr3.trans (Reach.step hr))).trans ?_
-    simp only at hst3
-    rw [hst3]
-    exact Reach.refl _ _
-  | norm e =>
-    obtain ⟨σ3, hr3, hpc3, hs3, _⟩ := hbody
-    -- the body fell off its end: the function's closing RET follows
-    have hnl : lastIsRet d.body = false := by
-      cases hl : lastIsRet d.body with
-      | false => rfl
-      | true => exact absurd hex ((lastIsRet_aux (.block d.body)).2 d.body rfl hl fuel P _ e)
-    rw [hnl] at hp
-    have hret : C[σ3.pc]? = some (.ins .ret) := by
-      rw [hpc3]
-      exact (hp.right.cast (by simp [Nat.add_assoc]; omega)).head
-    have hr := step_ret (s := σ3) hret hs3.frames
-    refine (hpre.trans (hr3.trans (Reach.step hr))).trans ?_
-    rw [hs3.stack]
-    exact Reach.refl _ _
-  | brk e => obtain ⟨b', c', hh, _⟩ := hbody; cases hh
-  | cont e => obtain ⟨b', c', hh, _⟩ := hbody; cases hh
-
-end NeoModel.CompileProofs
-
-namespace NeoModel.CompileProofs
-open NeoModel.MiniVm NeoModel.MiniVm.Asm NeoModel.MiniGo NeoModel.Compile
-
-/-- everything that is proved together by induction on the fuel. -/
-structure AllOK (P : Prog) (C : Code) (fuel : Nat) : Prop where
-  expr : ∀ (cx : Ctx) (sc : Scopes) (env : Env), cx.funcs = funcTable P → ExprFOK P C cx sc env fuel
-  stmt : ∀ cx : Ctx, cx.funcs = funcTable P → StmtFOK P C cx fuel
-  iter : ∀ cx : Ctx, cx.funcs = funcTable P → IterOK P C cx fuel
-  call : CallOK P C fuel
-  callS : CallSOK P C fuel
-
-theorem callOK_succ {P : Prog} {C : Code} {fuel : Nat} (hpc : ProgCode C P)
-    (ihS : ∀ cx : Ctx, cx.funcs = funcTable P → StmtFOK P C cx fuel) (hall : ∀ d ∈ P, Allowed false d.body) :
-    CallOK P C (fuel + 1) := by
-  intro f vs v σ rest hc hs hf hdep
-  simp only [callF] at hc
-  cases hfind : P.find f with
-  | none => rw [hfind] at hc; simp at hc
-  | some d =>
-    rw [hfind] at hc
-    simp only at hc
-    by_cases hlen : d.params.length = vs.length
-    · have hne : (d.params.length != vs.length) = false := by simp [hlen]
-      simp only [hne, Bool.false_eq_true, if_false] at hc
-      cases hex : exec fuel P { frames := [[]], args := d.params.zip vs } (.block d.body) with
-      | ok out =>
-        rw [hex] at hc
-        have hrun := call_run hpc ihS hall hfind hlen hex hs hf hdep
-        cases out with
-        | ret r =>
-          cases r with
-          | some v' =>
-            simp only at hc
-            split at hc
-            · cases hc
-              simpa [CallPost] using hrun
-            · cases hc
-          | none => simp at hc
-        | norm e => simp at hc
-        | brk e => simp at hc
-        | cont e => simp at hc
-      | panic => rw [hex] at hc; simp at hc
-      | overflow => rw [hex] at hc; simp at hc
-      | stuck => rw [hex] at hc; simp at hc
-      | timeout => rw [hex] at hc; simp at hc
-    · have hne : (d.params.length != vs.length) = true := by simpa using hlen
-      simp [hne] at hc
-
-theorem callSOK_succ {P : Prog} {C : Code} {fuel : Nat} (hpc : ProgCode C P)
-    (ihS : ∀ cx : Ctx, cx.funcs = funcTable P → StmtFOK P C cx fuel) (hall : ∀ d ∈ P, Allowed false d.body) :
-    CallSOK P C (fuel + 1) := by
-  intro f vs σ rest hc hs hf hdep
-  simp only [callS] at hc
-  cases hfind : P.find f with
-  | none => rw [hfind] at hc; simp at hc
-  | some d =>
-    rw [hfind] at hc
-    simp only at hc
-    obtain ⟨i, _, _, hres⟩ := fnLabel_of_find hfind
-    by_cases hlen : d.params.length = vs.length
-    · have hne : (d.params.length != vs.length) = false := by simp [hlen]
-      simp only [hne, Bool.false_eq_true, if_false] at hc
-      cases hex : exec fuel P { frames := [[]], args := d.params.zip vs } (.block d.body) with
-      | ok out =>
-        rw [hex] at hc
-        have hrun := call_run hpc ihS hall hfind hlen hex hs hf hdep
-        cases out with
-        | ret r =>
-          cases r with
-          | some v' =>
-            simp only at hc
-            split at hc
-            · rename_i hh
-              exact ⟨[v'], by simp [hres, hh], by simpa [CallPost] using hrun⟩
-            · cases hc
-          | none =>
-            simp only at hc
-            split at hc
-            · cases hc
-            · rename_i hh
-              exact ⟨[], by simp [hres, hh], by simpa [CallPost] using hrun⟩
-        | norm e =>
-          simp only at hc
-          split at hc
-          · cases hc
-          · rename_i hh
-            exact ⟨[], by simp [hres, hh], by simpa [CallPost] using hrun⟩
-        | brk e => simp at hc
-        | cont e => simp at hc
-      | panic => rw [hex] at hc; simp at hc
-      | overflow => rw [hex] at hc; simp at hc
-      | stuck => rw [hex] at hc; simp at hc
-      | timeout => rw [hex] at hc; simp at hc
-    · have hne : (d.params.length != vs.length) = true := by simpa using hlen
-      simp [hne] at hc
-
-theorem allOK {P : Prog} {C : Code} (hpc : ProgCode C P) (hall : ∀ d ∈ P, Allowed false d.body) :
-    ∀ fuel, AllOK P C fuel := by
-  intro fuel
-  induction fuel with
-  | zero =>
-    refine ⟨fun cx sc env _ => exprFOK_zero P C cx sc env, fun cx _ => stmtFOK_zero P C cx, fun cx _ => iterOK_zero P C cx, ?_, ?_⟩
-    · intro f vs v σ rest hc; simp [callF] at hc
-    · intro f vs σ rest hc; simp [callS] at hc
-  | succ n ih =>
-    refine ⟨?_, ?_, ?_, callOK_succ hpc ih.stmt hall, callSOK_succ hpc ih.stmt hall⟩
-    · intro cx sc env htab
-      exact exprFOK_succ P C cx sc env n hpc.nodup htab (ih.expr cx sc env htab) ih.call
-    · intro cx htab
-      exact stmtFOK_succ P C cx n hpc.nodup htab (fun sc env => ih.expr cx sc env htab) (ih.stmt cx htab) (ih.iter cx htab) ih.callS
-    · intro cx htab
-      exact iterOK_succ P C cx n hpc.nodup (fun sc env => ih.expr cx sc env htab) (ih.stmt cx htab) (ih.iter cx htab)
-
-end NeoModel.CompileProofs
-
